@@ -1474,3 +1474,1699 @@ Proof.
   apply existsb_exists in G. destruct G as [h [Hh Hcov]]. exists h. split; [exact Hh|].
   apply covers_iff in Hcov. exact Hcov.
 Qed.
+
+(* ================================================================== deepening round *)
+
+(* ---------- connected components of the overlap relation of filter_results (closure computation) *)
+
+(* DEFINITIONS *)
+(* connected by a chain of overlaps > 20 through hits of the gene *)
+Inductive fconn (cds : list fhit) : fhit -> fhit -> Prop :=
+| fconn_refl h : In h cds -> fconn cds h h
+| fconn_step a b c : fconn cds a b -> In c cds -> fov b c = true -> fconn cds a c.
+
+Definition fc_closedP (cds T : list fhit) : Prop :=
+  forall y x, In y T -> In x cds -> fov y x = true -> In x T.
+
+(* ------------------------------------------------------------------ 1 *)
+Lemma fov_sym : forall a b, fov a b = fov b a.
+Proof.
+  intros a b. unfold fov.
+  rewrite (Z.eqb_sym (f_id a) (f_id b)), (Z.min_comm (f_he a)), (Z.max_comm (f_hs a)).
+  reflexivity.
+Qed.
+
+(* ------------------------------------------------------------------ 2 *)
+Lemma fc_mem_In : forall (x : Z) l, mem Z.eqb x l = true <-> In x l.
+Proof.
+  intros x l. induction l as [|y t IH]; simpl.
+  - split; [discriminate | tauto].
+  - rewrite orb_true_iff, IH, Z.eqb_eq. split; intros [H|H]; auto.
+Qed.
+
+Lemma znodup_NoDup : forall l, znodup l = true <-> NoDup l.
+Proof.
+  induction l as [|x t IH]; simpl.
+  - split; [constructor | reflexivity].
+  - rewrite andb_true_iff, negb_true_iff, IH. split.
+    + intros [Hm Hn]. constructor; auto.
+      intro Hin. apply fc_mem_In in Hin. congruence.
+    + intro Hn. inversion Hn; subst. split; auto.
+      destruct (mem Z.eqb x t) eqn:E; auto.
+      apply fc_mem_In in E. contradiction.
+Qed.
+
+(* ------------------------------------------------------------------ 3 *)
+Lemma fconn_In : forall cds a b, fconn cds a b -> In a cds /\ In b cds.
+Proof.
+  intros cds a b H. induction H; tauto.
+Qed.
+
+Lemma fconn_trans : forall cds a b c, fconn cds a b -> fconn cds b c -> fconn cds a c.
+Proof.
+  intros cds a b c Hab Hbc. induction Hbc.
+  - assumption.
+  - eapply fconn_step; [apply IHHbc; assumption | assumption | assumption].
+Qed.
+
+Lemma fc_fconn_step_l : forall cds a b c,
+  In a cds -> fov a b = true -> fconn cds b c -> fconn cds a c.
+Proof.
+  intros cds a b c Ha Hov Hbc. induction Hbc.
+  - eapply fconn_step; [apply fconn_refl; assumption | assumption | assumption].
+  - eapply fconn_step; [apply IHHbc; assumption | assumption | assumption].
+Qed.
+
+Lemma fconn_sym : forall cds a b, fconn cds a b -> fconn cds b a.
+Proof.
+  intros cds a b H. induction H.
+  - apply fconn_refl; assumption.
+  - eapply fc_fconn_step_l; [assumption | | exact IHfconn].
+    rewrite fov_sym. assumption.
+Qed.
+
+(* ------------------------------------------------------------------ 4 helpers *)
+Lemma fc_fmem_true : forall x T, fmem x T = true <-> exists y, In y T /\ f_id x = f_id y.
+Proof.
+  intros x T. unfold fmem. rewrite existsb_exists.
+  split; intros [y [Hy He]]; exists y; split; auto; apply Z.eqb_eq; assumption.
+Qed.
+
+Lemma fc_fmem_false : forall x T, fmem x T = false -> ~ In (f_id x) (map f_id T).
+Proof.
+  intros x T Hf Hin. apply in_map_iff in Hin. destruct Hin as [y [He Hy]].
+  assert (fmem x T = true) by (apply fc_fmem_true; exists y; auto).
+  congruence.
+Qed.
+
+Lemma fc_id_inj : forall cds x y,
+  NoDup (map f_id cds) -> In x cds -> In y cds -> f_id x = f_id y -> x = y.
+Proof.
+  induction cds as [|c t IH]; simpl; intros x y Hn Hx Hy He.
+  - contradiction.
+  - inversion Hn as [|? ? Hnin Hn']; subst.
+    destruct Hx as [Hx|Hx], Hy as [Hy|Hy]; subst.
+    + reflexivity.
+    + exfalso. apply Hnin. rewrite He. apply in_map; assumption.
+    + exfalso. apply Hnin. rewrite <- He. apply in_map; assumption.
+    + apply IH; assumption.
+Qed.
+
+Lemma fc_NoDup_app : forall (A : Type) (l m : list A),
+  NoDup l -> NoDup m -> (forall x, In x l -> ~ In x m) -> NoDup (l ++ m).
+Proof.
+  intros A l m Hl Hm Hd. induction l as [|a l IH]; simpl.
+  - assumption.
+  - inversion Hl; subst. constructor.
+    + intro Hin. apply in_app_or in Hin. destruct Hin as [Hin|Hin].
+      * contradiction.
+      * apply (Hd a); simpl; auto.
+    + apply IH; auto. intros x Hx. apply Hd. simpl; auto.
+Qed.
+
+Lemma fc_NoDup_map_filter : forall (A B : Type) (f : A -> B) (p : A -> bool) (l : list A),
+  NoDup (map f l) -> NoDup (map f (filter p l)).
+Proof.
+  intros A B f p l. induction l as [|a l IH]; simpl; intro Hn.
+  - constructor.
+  - inversion Hn; subst. destruct (p a); simpl; auto.
+    constructor; auto.
+    intro Hin. apply in_map_iff in Hin. destruct Hin as [y [He Hy]].
+    apply filter_In in Hy. destruct Hy as [Hy _].
+    match goal with H : ~ In _ _ |- _ => apply H end.
+    rewrite <- He. apply in_map; assumption.
+Qed.
+
+Lemma fc_fgrow_incl : forall cds T, incl T cds -> incl (fgrow cds T) cds.
+Proof.
+  intros cds T Hi x Hx. unfold fgrow in Hx. apply in_app_or in Hx.
+  destruct Hx as [Hx|Hx]; [apply Hi; assumption|].
+  apply filter_In in Hx. tauto.
+Qed.
+
+Lemma fc_fgrow_NoDup : forall cds T,
+  NoDup (map f_id cds) -> NoDup (map f_id T) -> NoDup (map f_id (fgrow cds T)).
+Proof.
+  intros cds T Hc Ht. unfold fgrow. rewrite map_app.
+  apply fc_NoDup_app.
+  - assumption.
+  - apply fc_NoDup_map_filter; assumption.
+  - intros i Hi Hi2. apply in_map_iff in Hi2. destruct Hi2 as [x [He Hx]].
+    apply filter_In in Hx. destruct Hx as [_ Hp].
+    apply andb_true_iff in Hp. destruct Hp as [Hp _].
+    apply negb_true_iff in Hp. apply fc_fmem_false in Hp.
+    rewrite He in Hp. contradiction.
+Qed.
+
+Lemma fc_stationary_closed : forall cds T,
+  NoDup (map f_id cds) -> incl T cds ->
+  filter (fun x => negb (fmem x T) && existsb (fun y => fov y x) T) cds = [] ->
+  fc_closedP cds T.
+Proof.
+  intros cds T Hc Hi Hf y x Hy Hx Hov.
+  destruct (fmem x T) eqn:Em.
+  - apply fc_fmem_true in Em. destruct Em as [z [Hz He]].
+    assert (x = z) by (apply (fc_id_inj cds); auto).
+    subst. assumption.
+  - exfalso.
+    assert (Hin : In x (filter (fun x => negb (fmem x T) && existsb (fun y => fov y x) T) cds)).
+    { apply filter_In. split; auto. rewrite Em. simpl.
+      apply existsb_exists. exists y. auto. }
+    rewrite Hf in Hin. contradiction.
+Qed.
+
+Lemma fc_fclosure_fix : forall n cds T, fgrow cds T = T -> fclosure n cds T = T.
+Proof.
+  induction n as [|n IH]; simpl; intros cds T Hg.
+  - reflexivity.
+  - rewrite Hg. apply IH. assumption.
+Qed.
+
+Lemma fc_full_all : forall cds T,
+  NoDup (map f_id cds) -> NoDup (map f_id T) -> incl T cds ->
+  (length cds <= length T)%nat -> forall x, In x cds -> In x T.
+Proof.
+  intros cds T Hc Ht Hi Hl x Hx.
+  assert (Hincl : incl (map f_id cds) (map f_id T)).
+  { apply NoDup_length_incl.
+    - assumption.
+    - rewrite !map_length. assumption.
+    - intros i Hin. apply in_map_iff in Hin. destruct Hin as [z [He Hz]].
+      rewrite <- He. apply in_map. apply Hi. assumption. }
+  assert (Hin : In (f_id x) (map f_id T)) by (apply Hincl; apply in_map; assumption).
+  apply in_map_iff in Hin. destruct Hin as [z [He Hz]].
+  assert (z = x) by (apply (fc_id_inj cds); auto).
+  subst. assumption.
+Qed.
+
+Lemma fc_closure_closed : forall cds, NoDup (map f_id cds) ->
+  forall n T, NoDup (map f_id T) -> incl T cds ->
+  (length cds <= length T + n)%nat -> fc_closedP cds (fclosure n cds T).
+Proof.
+  intros cds Hc. induction n as [|n IH]; intros T Ht Hi Hl; simpl.
+  - intros y x Hy Hx _. apply (fc_full_all cds); auto. lia.
+  - destruct (filter (fun x => negb (fmem x T) && existsb (fun y => fov y x) T) cds) eqn:Ef.
+    + assert (Hg : fgrow cds T = T) by (unfold fgrow; rewrite Ef; apply app_nil_r).
+      rewrite Hg. rewrite fc_fclosure_fix by assumption.
+      apply fc_stationary_closed; assumption.
+    + apply IH.
+      * apply fc_fgrow_NoDup; assumption.
+      * apply fc_fgrow_incl; assumption.
+      * unfold fgrow. rewrite Ef, app_length. simpl. lia.
+Qed.
+
+Lemma fc_closure_mono : forall n cds T x, In x T -> In x (fclosure n cds T).
+Proof.
+  induction n as [|n IH]; simpl; intros cds T x Hx.
+  - assumption.
+  - apply IH. unfold fgrow. apply in_or_app. left. assumption.
+Qed.
+
+Lemma fc_closure_sound : forall n cds T, incl T cds ->
+  forall x, In x (fclosure n cds T) -> exists s, In s T /\ fconn cds s x.
+Proof.
+  induction n as [|n IH]; simpl; intros cds T Hi x Hx.
+  - exists x. split; auto. apply fconn_refl. apply Hi. assumption.
+  - apply IH in Hx; [|apply fc_fgrow_incl; assumption].
+    destruct Hx as [s [Hs Hsx]]. unfold fgrow in Hs. apply in_app_or in Hs.
+    destruct Hs as [Hs|Hs].
+    + exists s. auto.
+    + apply filter_In in Hs. destruct Hs as [Hsc Hp].
+      apply andb_true_iff in Hp. destruct Hp as [_ Hp].
+      apply existsb_exists in Hp. destruct Hp as [y [Hy Hov]].
+      exists y. split; auto.
+      eapply fconn_trans; [|exact Hsx].
+      eapply fconn_step; [apply fconn_refl; apply Hi; assumption | assumption | assumption].
+Qed.
+
+Lemma fc_closed_conn : forall cds T a x,
+  fc_closedP cds T -> fconn cds a x -> In a T -> In x T.
+Proof.
+  intros cds T a x Hcl Hc. induction Hc; intro Ha.
+  - assumption.
+  - apply (Hcl b c); auto.
+Qed.
+
+(* ------------------------------------------------------------------ 4 MAIN *)
+Lemma fcomp_spec : forall cds h, NoDup (map f_id cds) -> In h cds ->
+  forall x, In x (fcomp cds h) <-> fconn cds h x.
+Proof.
+  intros cds h Hc Hh x. unfold fcomp.
+  assert (Hi : incl [h] cds).
+  { intros z [Hz|[]]. subst. assumption. }
+  split.
+  - intro Hx. apply fc_closure_sound in Hx; [|assumption].
+    destruct Hx as [s [[Hs|[]] Hsx]]. subst. assumption.
+  - intro Hx. eapply fc_closed_conn; [| exact Hx |].
+    + apply fc_closure_closed; [assumption | | assumption | ].
+      * simpl. constructor; [simpl; tauto | constructor].
+      * simpl. lia.
+    + apply fc_closure_mono. simpl. auto.
+Qed.
+
+(* ------------------------------------------------------------------ 5 *)
+Lemma comp_best_spec : forall cds h, NoDup (map f_id cds) -> In h cds ->
+  (comp_best cds h = true <-> forall o, fconn cds h o -> f_sc o <= f_sc h).
+Proof.
+  intros cds h Hc Hh. unfold comp_best. rewrite forallb_forall. split.
+  - intros H o Ho. apply Z.leb_le. apply H. apply fcomp_spec; assumption.
+  - intros H o Ho. apply Z.leb_le. apply H. apply fcomp_spec in Ho; assumption.
+Qed.
+
+(* ------------------------------------------------------------------ 6 *)
+Lemma fconn_perm : forall cds cds', (forall x, In x cds <-> In x cds') ->
+  forall a b, fconn cds a b -> fconn cds' a b.
+Proof.
+  intros cds cds' He a b H. induction H.
+  - apply fconn_refl. apply He. assumption.
+  - eapply fconn_step; [exact IHfconn | apply He; assumption | assumption].
+Qed.
+
+Lemma comp_best_perm : forall cds cds' h, Permutation cds cds' ->
+  NoDup (map f_id cds) -> In h cds -> comp_best cds h = comp_best cds' h.
+Proof.
+  intros cds cds' h Hp Hc Hh.
+  assert (He : forall x, In x cds <-> In x cds').
+  { intro x. split; apply Permutation_in; [assumption | apply Permutation_sym; assumption]. }
+  assert (Hc' : NoDup (map f_id cds')).
+  { eapply Permutation_NoDup; [apply Permutation_map; exact Hp | assumption]. }
+  assert (Hh' : In h cds') by (apply He; assumption).
+  assert (Hiff : comp_best cds h = true <-> comp_best cds' h = true).
+  { rewrite (comp_best_spec cds h Hc Hh), (comp_best_spec cds' h Hc' Hh').
+    split; intros H o Ho; apply H.
+    - eapply fconn_perm; [|exact Ho]. intro x. symmetry. apply He.
+    - eapply fconn_perm; [|exact Ho]. assumption. }
+  destruct (comp_best cds h), (comp_best cds' h); auto.
+  - symmetry. apply Hiff. reflexivity.
+  - apply Hiff. reflexivity.
+Qed.
+
+
+
+(* ================================================================== filter_results *)
+(* DEFINITIONS (shared with the closure part) *)
+Lemma fhit_eq_dec_aux (a b : fhit) : {a = b} + {a <> b}.
+Proof. decide equality; apply Z.eq_dec. Qed.
+
+Lemma fr_fov_sym a b : fov a b = fov b a.
+Proof. unfold fov. rewrite (Z.eqb_sym (f_id a)), (Z.min_comm (f_he a)), (Z.max_comm (f_hs a)). reflexivity. Qed.
+
+Lemma fr_fconn_In cds a b : fconn cds a b -> In a cds /\ In b cds.
+Proof. induction 1 as [h H|a b c H [IH1 IH2] Hc Hf]; auto. Qed.
+
+Lemma fr_fconn_trans cds a b c : fconn cds a b -> fconn cds b c -> fconn cds a c.
+Proof. intros Hab Hbc. induction Hbc as [h H|x y z H IH Hz Hf]; auto. apply (fconn_step cds a y z); auto. Qed.
+
+Lemma fr_fconn_edge cds a b : In a cds -> In b cds -> fov a b = true -> fconn cds a b.
+Proof. intros Ha Hb H. apply (fconn_step cds a a b); auto. apply fconn_refl; auto. Qed.
+
+Lemma fr_fconn_sym cds a b : fconn cds a b -> fconn cds b a.
+Proof.
+  induction 1 as [h H|a b c H IH Hc Hf]; [apply fconn_refl; auto|].
+  apply (fr_fconn_trans cds c b a); [|exact IH].
+  apply fr_fconn_edge; auto; [apply (fr_fconn_In cds a b H)|rewrite fr_fov_sym; exact Hf].
+Qed.
+
+(* a chain leaving a starts with an edge at a *)
+Lemma fr_fconn_first_edge cds a c : fconn cds a c -> a = c \/ exists b, In b cds /\ fov a b = true.
+Proof.
+  induction 1 as [h H|a b c H IH Hc Hf]; [left; reflexivity|].
+  destruct IH as [->|R]; [right; exists c; auto|right; exact R].
+Qed.
+
+(* ---------- identities *)
+Lemma fr_id_inj cds : NoDup (map f_id cds) -> forall x y, In x cds -> In y cds -> f_id x = f_id y -> x = y.
+Proof.
+  induction cds as [|a t IH]; cbn; intros ND x y Hx Hy E; [contradiction|].
+  inversion ND as [|? ? Hn ND']; subst.
+  destruct Hx as [->|Hx], Hy as [->|Hy]; auto.
+  - exfalso. apply Hn. rewrite E. apply in_map. exact Hy.
+  - exfalso. apply Hn. rewrite <- E. apply in_map. exact Hx.
+Qed.
+
+Lemma fr_fmem_iff x s : fmem x s = true <-> exists y, In y s /\ f_id x = f_id y.
+Proof.
+  unfold fmem. rewrite existsb_exists. split; intros [y [H1 H2]]; exists y; split; auto.
+  - apply Z.eqb_eq. exact H2.
+  - apply Z.eqb_eq. exact H2.
+Qed.
+
+Lemma fr_fmem_In cds g x : NoDup (map f_id cds) -> incl g cds -> In x cds -> fmem x g = true -> In x g.
+Proof.
+  intros ND Hg Hx H. apply fr_fmem_iff in H. destruct H as [y [Hy E]].
+  rewrite (fr_id_inj cds ND x y Hx (Hg y Hy) E). exact Hy.
+Qed.
+
+Lemma fr_In_fmem x s : In x s -> fmem x s = true.
+Proof. intros H. apply fr_fmem_iff. exists x. auto. Qed.
+
+Lemma fr_fadd_old x s y : In y s -> In y (fadd x s).
+Proof. unfold fadd. destruct (fmem x s); auto. intros H. apply in_or_app. auto. Qed.
+
+Lemma fr_fadd_inv x s y : In y (fadd x s) -> In y s \/ y = x.
+Proof.
+  unfold fadd. destruct (fmem x s); auto. intros H. apply in_app_or in H. destruct H as [H|[H|[]]]; auto.
+Qed.
+
+Lemma fr_fadd_self cds x s : NoDup (map f_id cds) -> incl s cds -> In x cds -> In x (fadd x s).
+Proof.
+  intros ND Hs Hx. unfold fadd. destruct (fmem x s) eqn:E.
+  - apply (fr_fmem_In cds); auto.
+  - apply in_or_app. right. left. reflexivity.
+Qed.
+
+Lemma fr_fadd_incl cds x s : incl s cds -> In x cds -> incl (fadd x s) cds.
+Proof. intros Hs Hx y Hy. apply fr_fadd_inv in Hy. destruct Hy as [Hy| ->]; auto. Qed.
+
+(* ---------- the pair loop without the result monad *)
+Definition fr_upd (a b : fhit) (g : list fhit) : list fhit :=
+  if fmem a g || fmem b g then fadd b (fadd a g) else g.
+Definition fr_pstep (h : fhit) (groups : list (list fhit)) (o : fhit) : list (list fhit) :=
+  if fov h o then
+    (if existsb (fun g => fmem h g || fmem o g) groups then map (fr_upd h o) groups
+     else map (fr_upd h o) groups ++ [[h; o]])
+  else groups.
+
+Lemma fr_update_groups_map a b : forall groups,
+  update_groups a b groups = (map (fr_upd a b) groups, negb (existsb (fun g => fmem a g || fmem b g) groups)).
+Proof.
+  induction groups as [|g gs IH]; cbn [update_groups map existsb]; [reflexivity|].
+  rewrite IH. assert (U : fr_upd a b g = if fmem a g || fmem b g then fadd b (fadd a g) else g) by reflexivity.
+  rewrite U. destruct (fmem a g || fmem b g); cbn; reflexivity.
+Qed.
+
+Lemma fr_pair_step_pure h o groups : f_hs h < f_he h -> f_hs o < f_he o ->
+  pair_step h (Ok groups) o = Ok (fr_pstep h groups o).
+Proof.
+  intros Hh Ho. unfold pair_step, fr_pstep, fov, hsp_overlap_size. cbn [bind].
+  destruct (f_id h =? f_id o) eqn:Ei; cbn [negb andb]; [reflexivity|].
+  replace (f_hs h <? f_he h) with true by lia. replace (f_hs o <? f_he o) with true by lia. cbn [negb bind].
+  destruct (Z.max 0 (Z.min (f_he h) (f_he o) - Z.max (f_hs h) (f_hs o)) <=? 20) eqn:E1;
+    destruct (20 <? Z.min (f_he h) (f_he o) - Z.max (f_hs h) (f_hs o)) eqn:E2; try lia; [reflexivity|].
+  rewrite fr_update_groups_map.
+  destruct (existsb (fun g => fmem h g || fmem o g) groups); reflexivity.
+Qed.
+
+Definition fr_pos (cds : list fhit) : Prop := forall h, In h cds -> f_hs h < f_he h.
+
+Lemma fr_inner_pure h : forall os gs, f_hs h < f_he h -> fr_pos os ->
+  fold_left (pair_step h) os (Ok gs) = Ok (fold_left (fr_pstep h) os gs).
+Proof.
+  induction os as [|o os IH]; intros gs Hh Hp; cbn [fold_left]; [reflexivity|].
+  rewrite fr_pair_step_pure; auto; [|apply Hp; left; reflexivity].
+  apply IH; auto. intros x Hx. apply Hp. right. exact Hx.
+Qed.
+
+Definition fr_groups (cds : list fhit) : list (list fhit) :=
+  fold_left (fun gs h => fold_left (fr_pstep h) cds gs) cds [].
+
+Lemma fr_outer_pure cds : fr_pos cds -> forall hs gs, fr_pos hs ->
+  fold_left (fun s h => fold_left (pair_step h) cds s) hs (Ok gs)
+  = Ok (fold_left (fun gs h => fold_left (fr_pstep h) cds gs) hs gs).
+Proof.
+  intros Hp. induction hs as [|h hs IH]; intros gs Hh; cbn [fold_left]; [reflexivity|].
+  rewrite fr_inner_pure; auto; [|apply Hh; left; reflexivity].
+  apply IH. intros x Hx. apply Hh. right. exact Hx.
+Qed.
+
+Lemma fr_overlapping_groups_pure cds : fr_pos cds -> overlapping_groups cds = Ok (fr_groups cds).
+Proof. intros Hp. unfold overlapping_groups, fr_groups. apply fr_outer_pure; auto. Qed.
+
+(* ---------- invariants of the group building *)
+Definition fr_gconn (cds g : list fhit) : Prop := forall x y, In x g -> In y g -> fconn cds x y.
+Definition fr_inv (cds : list fhit) (gs : list (list fhit)) : Prop :=
+  forall g, In g gs -> incl g cds /\ fr_gconn cds g /\ g <> [].
+Definition fr_gle (gs gs' : list (list fhit)) : Prop := forall g, In g gs -> exists g', In g' gs' /\ incl g g'.
+Definition fr_covers (gs : list (list fhit)) (h o : fhit) : Prop := exists g, In g gs /\ In h g /\ In o g.
+
+Lemma fr_gle_refl gs : fr_gle gs gs.
+Proof. intros g Hg. exists g. split; auto. apply incl_refl. Qed.
+Lemma fr_gle_trans a b c : fr_gle a b -> fr_gle b c -> fr_gle a c.
+Proof.
+  intros H1 H2 g Hg. destruct (H1 g Hg) as [g1 [Hg1 I1]]. destruct (H2 g1 Hg1) as [g2 [Hg2 I2]].
+  exists g2. split; auto. eapply incl_tran; eauto.
+Qed.
+Lemma fr_covers_gle gs gs' h o : fr_gle gs gs' -> fr_covers gs h o -> fr_covers gs' h o.
+Proof. intros H [g [Hg [Hh Ho]]]. destruct (H g Hg) as [g' [Hg' I]]. exists g'. auto. Qed.
+
+Lemma fr_star cds g h : (forall z, In z g -> fconn cds z h) -> fr_gconn cds g.
+Proof.
+  intros H x y Hx Hy. apply (fr_fconn_trans cds x h y); [apply H; exact Hx|apply fr_fconn_sym, H; exact Hy].
+Qed.
+
+Lemma fr_upd_incl_l a b g : incl g (fr_upd a b g).
+Proof.
+  unfold fr_upd. destruct (fmem a g || fmem b g); [|apply incl_refl].
+  intros y Hy. apply fr_fadd_old, fr_fadd_old. exact Hy.
+Qed.
+
+Lemma fr_pstep_spec cds h o gs : NoDup (map f_id cds) -> In h cds -> In o cds -> fr_inv cds gs ->
+  fr_inv cds (fr_pstep h gs o) /\ fr_gle gs (fr_pstep h gs o) /\ (fov h o = true -> fr_covers (fr_pstep h gs o) h o).
+Proof.
+  intros ND Hh Ho Inv. unfold fr_pstep. destruct (fov h o) eqn:Ef.
+  2:{ split; [exact Inv|]. split; [apply fr_gle_refl|discriminate]. }
+  assert (Hoh : fconn cds o h) by (apply fr_fconn_edge; auto; rewrite fr_fov_sym; exact Ef).
+  assert (InvU : fr_inv cds (map (fr_upd h o) gs)).
+  { intros g' Hg'. apply in_map_iff in Hg'. destruct Hg' as [g [<- Hg]]. destruct (Inv g Hg) as [I1 [I2 I3]].
+    unfold fr_upd. destruct (fmem h g || fmem o g) eqn:Et; [|auto].
+    split; [apply (fr_fadd_incl cds); auto; apply (fr_fadd_incl cds); auto|]. split.
+    - apply (fr_star cds _ h). intros z Hz.
+      apply fr_fadd_inv in Hz. destruct Hz as [Hz| ->]; [|exact Hoh].
+      apply fr_fadd_inv in Hz. destruct Hz as [Hz| ->]; [|apply fconn_refl; exact Hh].
+      apply orb_true_iff in Et. destruct Et as [Et|Et].
+      + apply I2; auto. apply (fr_fmem_In cds); auto.
+      + apply (fr_fconn_trans cds z o h); [|exact Hoh]. apply I2; auto. apply (fr_fmem_In cds); auto.
+    - intros E. destruct g as [|g0 gt]; [apply I3; reflexivity|].
+      assert (In g0 (fadd o (fadd h (g0 :: gt)))) by (apply fr_fadd_old, fr_fadd_old; left; reflexivity).
+      rewrite E in H. contradiction. }
+  assert (GleU : fr_gle gs (map (fr_upd h o) gs)).
+  { intros g Hg. exists (fr_upd h o g). split; [apply in_map; exact Hg|apply fr_upd_incl_l]. }
+  destruct (existsb (fun g => fmem h g || fmem o g) gs) eqn:Ex.
+  - split; [exact InvU|]. split; [exact GleU|]. intros _.
+    apply existsb_exists in Ex. destruct Ex as [g [Hg Et]]. destruct (Inv g Hg) as [I1 _].
+    exists (fr_upd h o g). split; [apply in_map; exact Hg|]. unfold fr_upd. rewrite Et. split.
+    + apply fr_fadd_old. apply (fr_fadd_self cds); auto.
+    + apply (fr_fadd_self cds); auto. apply (fr_fadd_incl cds); auto.
+  - split; [|split].
+    + intros g Hg. apply in_app_or in Hg. destruct Hg as [Hg|[<-|[]]]; [apply InvU; exact Hg|].
+      split; [intros z [<-|[<-|[]]]; auto|]. split; [|discriminate].
+      apply (fr_star cds _ h). intros z [<-|[<-|[]]]; [apply fconn_refl; exact Hh|exact Hoh].
+    + intros g Hg. destruct (GleU g Hg) as [g' [Hg' I]]. exists g'. split; [apply in_or_app; left; exact Hg'|exact I].
+    + intros _. exists [h; o]. split; [apply in_or_app; right; left; reflexivity|]. split; [left|right; left]; reflexivity.
+Qed.
+
+Lemma fr_inner_spec cds h : NoDup (map f_id cds) -> In h cds -> forall os gs, incl os cds -> fr_inv cds gs ->
+  let gs' := fold_left (fr_pstep h) os gs in
+  fr_inv cds gs' /\ fr_gle gs gs' /\ forall o, In o os -> fov h o = true -> fr_covers gs' h o.
+Proof.
+  intros ND Hh. induction os as [|o os IH]; intros gs Hos Inv; cbn [fold_left].
+  - split; [exact Inv|]. split; [apply fr_gle_refl|intros o []].
+  - assert (Ho : In o cds) by (apply Hos; left; reflexivity).
+    destruct (fr_pstep_spec cds h o gs ND Hh Ho Inv) as [I1 [G1 C1]].
+    destruct (IH (fr_pstep h gs o) (fun x Hx => Hos x (or_intror Hx)) I1) as [I2 [G2 C2]].
+    split; [exact I2|]. split; [eapply fr_gle_trans; eauto|].
+    intros o' [<-|Ho'] Hf; [|apply C2; auto]. apply (fr_covers_gle _ _ _ _ G2). apply C1. exact Hf.
+Qed.
+
+Lemma fr_outer_spec cds : NoDup (map f_id cds) -> forall hs gs, incl hs cds -> fr_inv cds gs ->
+  let gs' := fold_left (fun gs h => fold_left (fr_pstep h) cds gs) hs gs in
+  fr_inv cds gs' /\ fr_gle gs gs' /\ forall h o, In h hs -> In o cds -> fov h o = true -> fr_covers gs' h o.
+Proof.
+  intros ND. induction hs as [|h hs IH]; intros gs Hhs Inv; cbn [fold_left].
+  - split; [exact Inv|]. split; [apply fr_gle_refl|intros h o []].
+  - assert (Hh : In h cds) by (apply Hhs; left; reflexivity).
+    destruct (fr_inner_spec cds h ND Hh cds gs (incl_refl _) Inv) as [I1 [G1 C1]].
+    destruct (IH _ (fun x Hx => Hhs x (or_intror Hx)) I1) as [I2 [G2 C2]].
+    split; [exact I2|]. split; [eapply fr_gle_trans; eauto|].
+    intros h' o [<-|Hh'] Ho Hf; [|apply C2; auto]. apply (fr_covers_gle _ _ _ _ G2). apply C1; auto.
+Qed.
+
+(* what the groups are, for every input: sets of the gene's hits, each chained together by overlaps,
+   and every overlapping pair lies inside one of them *)
+Lemma fr_groups_spec cds : NoDup (map f_id cds) ->
+  fr_inv cds (fr_groups cds) /\ forall h o, In h cds -> In o cds -> fov h o = true -> fr_covers (fr_groups cds) h o.
+Proof.
+  intros ND. destruct (fr_outer_spec cds ND cds [] (incl_refl _)) as [I [_ C]]; [intros g []|].
+  split; [exact I|exact C].
+Qed.
+
+(* ---------- a closed group is a connected component *)
+Lemma fr_fsubset_In cds g g' : NoDup (map f_id cds) -> incl g cds -> incl g' cds ->
+  fsubset g g' = true -> incl g g'.
+Proof.
+  intros ND Hg Hg' H x Hx. unfold fsubset in H. rewrite forallb_forall in H.
+  apply (fr_fmem_In cds); auto.
+Qed.
+
+Lemma fr_closed_component cds gs g h : NoDup (map f_id cds) -> fr_inv cds gs ->
+  (forall a b, In a cds -> In b cds -> fov a b = true -> fr_covers gs a b) ->
+  In g gs -> fclosed gs g = true -> In h g -> forall x, In x g <-> fconn cds h x.
+Proof.
+  intros ND Inv Cov Hg Hc Hh x. destruct (Inv g Hg) as [I1 [I2 _]]. split; [intros Hx; apply I2; auto|].
+  induction 1 as [h H|a b c H IH Hc' Hf]; [exact Hh|].
+  specialize (IH Hh). destruct (Cov b c (I1 b IH) Hc' Hf) as [g2 [Hg2 [Hb2 Hc2]]].
+  unfold fclosed in Hc. rewrite forallb_forall in Hc. specialize (Hc g2 Hg2).
+  assert (M : fmeets g2 g = true).
+  { unfold fmeets. apply existsb_exists. exists b. split; [exact Hb2|apply fr_In_fmem; exact IH]. }
+  rewrite M in Hc. cbn in Hc. destruct (Inv g2 Hg2) as [J1 _].
+  apply (fr_fsubset_In cds g2 g ND J1 I1 Hc). exact Hc2.
+Qed.
+
+(* ---------- best of a group *)
+Lemma fr_fold_best : forall l b0,
+  let b := fold_left (fun best h => if f_sc best <? f_sc h then h else best) l b0 in
+  (b = b0 \/ In b l) /\ f_sc b0 <= f_sc b /\ forall x, In x l -> f_sc x <= f_sc b.
+Proof.
+  induction l as [|h l IH]; intros b0; cbn [fold_left].
+  - split; [left; reflexivity|]. split; [lia|intros x []].
+  - destruct (IH (if f_sc b0 <? f_sc h then h else b0)) as [H1 [H2 H3]]. cbv zeta in *.
+    destruct (f_sc b0 <? f_sc h) eqn:E.
+    + split; [destruct H1 as [->|H1]; [right; left; reflexivity|right; right; exact H1]|].
+      split; [lia|]. intros x [<-|Hx]; [exact H2|apply H3; exact Hx].
+    + split; [destruct H1 as [H1|H1]; [left; exact H1|right; right; exact H1]|].
+      split; [exact H2|]. intros x [<-|Hx]; [lia|apply H3; exact Hx].
+Qed.
+
+Lemma fr_rank_order_In g x : In x (rank_order g) <-> In x g.
+Proof. unfold rank_order. apply sort_by_In. Qed.
+
+Lemma fr_best_of_spec g b : best_of g = Some b -> In b g /\ forall x, In x g -> f_sc x <= f_sc b.
+Proof.
+  unfold best_of. destruct (rank_order g) as [|r0 rt] eqn:E; [discriminate|]. intros H. injection H as Hb.
+  pose proof (fr_fold_best (r0 :: rt) r0) as P. cbv zeta in P. cbn [fold_left] in P. rewrite Hb in P. destruct P as [H1 [_ H3]]. split.
+  - apply fr_rank_order_In. rewrite E. destruct H1 as [->|H1]; [left; reflexivity|exact H1].
+  - intros x Hx. apply H3. rewrite <- E. apply fr_rank_order_In. exact Hx.
+Qed.
+
+Lemma fr_best_of_some g : g <> [] -> exists b, best_of g = Some b.
+Proof.
+  intros Hg. unfold best_of. destruct (rank_order g) as [|r0 rt] eqn:E; [|eexists; reflexivity].
+  destruct g as [|x t]; [contradiction|]. assert (In x (rank_order (x :: t))) by (apply fr_rank_order_In; left; reflexivity).
+  rewrite E in H. contradiction.
+Qed.
+
+(* ---------- the removal pass as a filter *)
+Definition fr_state := (list fhit * list fhit * list Z)%type.
+Definition fr_J (s : fr_state) : Prop :=
+  let '(R, M, rem) := s in forall i, In i rem -> (forall r, In r R -> f_id r <> i) /\ (forall r, In r M -> f_id r <> i).
+
+Lemma fr_filter_true {A} (f : A -> bool) l : (forall x, In x l -> f x = true) -> filter f l = l.
+Proof.
+  induction l as [|a t IH]; cbn; intros H; [reflexivity|].
+  rewrite (H a (or_introl eq_refl)). f_equal. apply IH. intros x Hx. apply H. right. exact Hx.
+Qed.
+
+Lemma fr_filter_filter {A} (f g : A -> bool) l : filter f (filter g l) = filter (fun x => g x && f x) l.
+Proof.
+  induction l as [|a t IH]; cbn; [reflexivity|]. destruct (g a); cbn; [destruct (f a); rewrite IH; reflexivity|exact IH].
+Qed.
+
+Lemma fr_fold_filter {X} (step : fr_state -> X -> fr_state) (p : X -> fhit -> bool) :
+  (forall R M rem x, fr_J (R, M, rem) ->
+     exists rem', step (R, M, rem) x = (filter (fun r => negb (p x r)) R, filter (fun r => negb (p x r)) M, rem')
+                  /\ fr_J (filter (fun r => negb (p x r)) R, filter (fun r => negb (p x r)) M, rem')) ->
+  forall l R M rem, fr_J (R, M, rem) ->
+     exists rem', fold_left step l (R, M, rem)
+                  = (filter (fun r => negb (existsb (fun x => p x r) l)) R,
+                     filter (fun r => negb (existsb (fun x => p x r) l)) M, rem')
+                  /\ fr_J (filter (fun r => negb (existsb (fun x => p x r) l)) R,
+                           filter (fun r => negb (existsb (fun x => p x r) l)) M, rem').
+Proof.
+  intros Hstep. induction l as [|x l IH]; intros R M rem J; cbn [fold_left existsb].
+  - exists rem. rewrite !fr_filter_true by reflexivity. split; [reflexivity|exact J].
+  - destruct (Hstep R M rem x J) as [rem1 [E1 J1]]. rewrite E1.
+    destruct (IH _ _ rem1 J1) as [rem2 [E2 J2]]. exists rem2.
+    rewrite !fr_filter_filter in E2, J2.
+    assert (Ext : forall L : list fhit, filter (fun r => negb (p x r) && negb (existsb (fun x0 => p x0 r) l)) L
+                                 = filter (fun r => negb (p x r || existsb (fun x0 => p x0 r) l)) L).
+    { intros L. apply filter_ext. intros r. rewrite negb_orb. reflexivity. }
+    rewrite !Ext in E2, J2. split; [exact E2|exact J2].
+Qed.
+
+Definition fr_p1 (b h r : fhit) : bool := (f_id h =? f_id r) && negb (f_id h =? f_id b).
+
+Lemma fr_removal_step_filter b : forall R M rem h, fr_J (R, M, rem) ->
+  exists rem', removal_step b (R, M, rem) h
+               = (filter (fun r => negb (fr_p1 b h r)) R, filter (fun r => negb (fr_p1 b h r)) M, rem')
+               /\ fr_J (filter (fun r => negb (fr_p1 b h r)) R, filter (fun r => negb (fr_p1 b h r)) M, rem').
+Proof.
+  intros R M rem h J. unfold removal_step, fr_p1. destruct (f_id h =? f_id b) eqn:Eb.
+  - exists rem. rewrite !fr_filter_true by (intros; rewrite andb_false_r; reflexivity). split; [reflexivity|exact J].
+  - destruct (mem Z.eqb (f_id h) rem) eqn:Em.
+    + exists rem. assert (Hin : In (f_id h) rem).
+      { clear -Em. induction rem as [|a t IH]; cbn in Em; [discriminate|].
+        apply orb_true_iff in Em. destruct Em as [E|E]; [left; symmetry; apply Z.eqb_eq; exact E|right; apply IH; exact E]. }
+      destruct (J _ Hin) as [JR JM].
+      rewrite (fr_filter_true _ R), (fr_filter_true _ M); [split; [reflexivity|exact J]| |].
+      * intros r Hr. specialize (JM r Hr). cbn. rewrite andb_true_r. apply negb_true_iff. apply Z.eqb_neq. auto.
+      * intros r Hr. specialize (JR r Hr). cbn. rewrite andb_true_r. apply negb_true_iff. apply Z.eqb_neq. auto.
+    + exists (f_id h :: rem). unfold remove_id.
+      assert (Ext : forall L : list fhit, filter (fun x => negb (f_id x =? f_id h)) L
+                                   = filter (fun r => negb ((f_id h =? f_id r) && negb false)) L).
+      { intros L. apply filter_ext. intros r. cbn. rewrite andb_true_r, Z.eqb_sym. reflexivity. }
+      rewrite !Ext. split; [reflexivity|].
+      intros i [<-|Hi].
+      * split; intros r Hr; apply filter_In in Hr; destruct Hr as [_ Hr]; cbn in Hr; rewrite andb_true_r in Hr;
+          apply negb_true_iff, Z.eqb_neq in Hr; auto.
+      * destruct (J i Hi) as [JR JM]. split; intros r Hr; apply filter_In in Hr; destruct Hr as [Hr _]; auto.
+Qed.
+
+(* r is a member (by identity) of g other than g's best *)
+Definition fr_dead (g : list fhit) (r : fhit) : bool :=
+  match best_of g with None => false | Some b => existsb (fun h => fr_p1 b h r) (rank_order g) end.
+Definition fr_bad (gs : list (list fhit)) (r : fhit) : bool := existsb (fun g => fr_dead g r) gs.
+
+Lemma fr_group_pass_filter : forall R M rem g, fr_J (R, M, rem) ->
+  exists rem', group_pass (R, M, rem) g
+               = (filter (fun r => negb (fr_dead g r)) R, filter (fun r => negb (fr_dead g r)) M, rem')
+               /\ fr_J (filter (fun r => negb (fr_dead g r)) R, filter (fun r => negb (fr_dead g r)) M, rem').
+Proof.
+  intros R M rem g J. unfold group_pass, fr_dead. destruct (best_of g) as [b|].
+  - apply (fr_fold_filter (removal_step b) (fr_p1 b)); [apply fr_removal_step_filter|exact J].
+  - exists rem. rewrite !fr_filter_true by reflexivity. split; [reflexivity|exact J].
+Qed.
+
+Lemma fr_groups_pass_filter gs R M rem : fr_J (R, M, rem) ->
+  exists rem', fold_left group_pass gs (R, M, rem)
+               = (filter (fun r => negb (fr_bad gs r)) R, filter (fun r => negb (fr_bad gs r)) M, rem').
+Proof.
+  intros J. destruct (fr_fold_filter group_pass fr_dead fr_group_pass_filter gs R M rem J) as [rem' [E _]].
+  exists rem'. exact E.
+Qed.
+
+(* for a hit of the gene: bad = it belongs to a group whose best is another hit *)
+Lemma fr_bad_iff cds gs r : NoDup (map f_id cds) -> fr_inv cds gs -> In r cds ->
+  (fr_bad gs r = true <-> exists g b, In g gs /\ In r g /\ best_of g = Some b /\ b <> r).
+Proof.
+  intros ND Inv Hr. unfold fr_bad, fr_dead. rewrite existsb_exists. split.
+  - intros [g [Hg H]]. destruct (best_of g) as [b|] eqn:Eb; [|discriminate].
+    apply existsb_exists in H. destruct H as [h [Hh Hp]]. apply (proj1 (fr_rank_order_In g h)) in Hh.
+    unfold fr_p1 in Hp. apply andb_true_iff in Hp. destruct Hp as [P1 P2].
+    apply Z.eqb_eq in P1. apply negb_true_iff, Z.eqb_neq in P2.
+    destruct (Inv g Hg) as [I1 _].
+    assert (h = r) by (apply (fr_id_inj cds ND); [apply I1; exact Hh|exact Hr|exact P1]). subst h.
+    exists g, b. repeat split; auto. intros ->. apply P2. reflexivity.
+  - intros [g [b [Hg [Hrg [Eb Hne]]]]]. exists g. split; [exact Hg|]. rewrite Eb.
+    apply existsb_exists. exists r. split; [apply fr_rank_order_In; exact Hrg|].
+    unfold fr_p1. rewrite Z.eqb_refl. cbn. apply negb_true_iff, Z.eqb_neq. intros E.
+    destruct (Inv g Hg) as [I1 _]. destruct (fr_best_of_spec g b Eb) as [Hb _].
+    apply Hne. symmetry. apply (fr_id_inj cds ND); auto.
+Qed.
+
+(* ---------- one gene under one equivalence group *)
+Lemma fr_znodup_NoDup : forall l, znodup l = true -> NoDup l.
+Proof.
+  induction l as [|a t IH]; cbn; intros H; [constructor|]. apply andb_true_iff in H. destruct H as [H1 H2].
+  constructor; [|apply IH; exact H2]. intros Hin. apply negb_true_iff in H1.
+  assert (mem Z.eqb a t = true); [|congruence].
+  clear -Hin. induction t as [|b t IH]; cbn; [contradiction|]. destruct Hin as [->|Hin]; [rewrite Z.eqb_refl; reflexivity|].
+  rewrite IH by exact Hin. apply orb_true_r.
+Qed.
+
+Lemma fr_fwf_spec cds : fwf cds = true -> fr_pos cds /\ NoDup (map f_id cds).
+Proof.
+  unfold fwf. intros H. apply andb_true_iff in H. destruct H as [H1 H2]. split.
+  - intros h Hh. rewrite forallb_forall in H1. specialize (H1 h Hh). lia.
+  - apply fr_znodup_NoDup. exact H2.
+Qed.
+
+Definition fr_keep (mine : list fhit) (r : fhit) : bool := negb (fr_bad (fr_groups mine) r).
+
+(* (b), for every input of the domain: exactly the hits that are the best of every group they belong
+   to survive, in their old order, in the gene's list and in the global list; everything else is untouched *)
+Lemma fr_cds_survivors eqg results removed mine :
+  fwf mine = true -> competing eqg mine = true -> fr_J (results, mine, removed) ->
+  exists removed',
+    fr_cds eqg (Ok (results, removed)) mine
+    = (match filter (fr_keep mine) mine with
+       | [] => Err E_Assert
+       | _ => Ok (filter (fr_keep mine) results, removed')
+       end, filter (fr_keep mine) mine).
+Proof.
+  intros Hwf Hc J. destruct (fr_fwf_spec mine Hwf) as [Hp ND].
+  unfold fr_cds. unfold competing in Hc. apply negb_true_iff in Hc. rewrite Hc.
+  rewrite (fr_overlapping_groups_pure mine Hp).
+  destruct (fr_groups_pass_filter (fr_groups mine) results mine removed J) as [rem' E].
+  exists rem'. rewrite E. unfold fr_keep. destruct (filter (fun r => negb (fr_bad (fr_groups mine) r)) mine); reflexivity.
+Qed.
+
+Lemma fr_cds_not_competing eqg s mine : competing eqg mine = false ->
+  fr_cds eqg (Ok s) mine = (Ok s, mine).
+Proof.
+  intros Hc. unfold fr_cds. destruct s as [results removed]. unfold competing in Hc. apply negb_false_iff in Hc.
+  rewrite Hc. reflexivity.
+Qed.
+
+(* no two survivors of a gene overlap by more than 20 *)
+Lemma fr_survivors_disjoint mine x y : fwf mine = true ->
+  In x (filter (fr_keep mine) mine) -> In y (filter (fr_keep mine) mine) -> fov x y = false.
+Proof.
+  intros Hwf Hx Hy. destruct (fr_fwf_spec mine Hwf) as [Hp ND].
+  destruct (fr_groups_spec mine ND) as [Inv Cov].
+  apply filter_In in Hx. destruct Hx as [Hx Kx]. apply filter_In in Hy. destruct Hy as [Hy Ky].
+  destruct (fov x y) eqn:Ef; [|reflexivity]. exfalso.
+  destruct (Cov x y Hx Hy Ef) as [g [Hg [Hxg Hyg]]]. destruct (Inv g Hg) as [_ [_ Hne]].
+  destruct (fr_best_of_some g Hne) as [b Eb].
+  unfold fr_keep in Kx, Ky. apply negb_true_iff in Kx. apply negb_true_iff in Ky.
+  assert (b = x).
+  { destruct (fhit_eq_dec_aux b x) as [E|E]; [exact E|]. exfalso.
+    assert (fr_bad (fr_groups mine) x = true) by (apply (fr_bad_iff mine); auto; exists g, b; auto). congruence. }
+  assert (b = y).
+  { destruct (fhit_eq_dec_aux b y) as [E|E]; [exact E|]. exfalso.
+    assert (fr_bad (fr_groups mine) y = true) by (apply (fr_bad_iff mine); auto; exists g, b; auto). congruence. }
+  subst x y. unfold fov in Ef. rewrite Z.eqb_refl in Ef. discriminate.
+Qed.
+
+(* ---------- the best hit of every connected component, under the guard *)
+Lemma fr_key_inj (f : fhit -> Z) cds : NoDup (map f cds) -> forall x y, In x cds -> In y cds -> f x = f y -> x = y.
+Proof.
+  induction cds as [|a t IH]; cbn; intros ND x y Hx Hy E; [contradiction|].
+  inversion ND as [|? ? Hn ND']; subst.
+  destruct Hx as [->|Hx], Hy as [->|Hy]; auto.
+  - exfalso. apply Hn. rewrite E. apply in_map. exact Hy.
+  - exfalso. apply Hn. rewrite <- E. apply in_map. exact Hx.
+Qed.
+
+(* unguarded: the best hit of its component always survives *)
+Lemma fr_best_survives mine h : fwf mine = true -> distinct_scores mine = true -> In h mine ->
+  comp_best mine h = true -> fr_keep mine h = true.
+Proof.
+  intros Hwf Hd Hh Hc. destruct (fr_fwf_spec mine Hwf) as [Hp ND]. apply fr_znodup_NoDup in Hd.
+  destruct (fr_groups_spec mine ND) as [Inv Cov].
+  unfold fr_keep. destruct (fr_bad (fr_groups mine) h) eqn:Eb; [|reflexivity]. exfalso.
+  apply (fr_bad_iff mine) in Eb; auto. destruct Eb as [g [b [Hg [Hhg [Ebest Hne]]]]].
+  destruct (fr_best_of_spec g b Ebest) as [Hbg Hmax]. destruct (Inv g Hg) as [I1 [I2 _]].
+  pose proof (proj1 (comp_best_spec mine h ND Hh) Hc b (I2 h b Hhg Hbg)) as Hle.
+  specialize (Hmax h Hhg). apply Hne. apply (fr_key_inj f_sc mine Hd); auto. lia.
+Qed.
+
+Lemma fr_keep_guarded mine h : fwf mine = true -> distinct_scores mine = true ->
+  groups_guard (fr_groups mine) = true -> In h mine -> fr_keep mine h = comp_best mine h.
+Proof.
+  intros Hwf Hd Hg Hh. destruct (comp_best mine h) eqn:Ec; [apply fr_best_survives; auto|].
+  destruct (fr_keep mine h) eqn:Ek; [|reflexivity]. exfalso.
+  destruct (fr_fwf_spec mine Hwf) as [Hp ND].
+  destruct (fr_groups_spec mine ND) as [Inv Cov].
+  assert (C : comp_best mine h = true); [|congruence].
+  apply (comp_best_spec mine h ND Hh). intros o Ho.
+  unfold fr_keep in Ek. apply negb_true_iff in Ek.
+  destruct (existsb (fun g => fmem h g) (fr_groups mine)) eqn:Ex.
+  - apply existsb_exists in Ex. destruct Ex as [g [Hgin Hm]]. destruct (Inv g Hgin) as [I1 _].
+    assert (Hhg : In h g) by (apply (fr_fmem_In mine); auto).
+    unfold groups_guard in Hg. rewrite forallb_forall in Hg. specialize (Hg g Hgin).
+    apply existsb_exists in Hg. destruct Hg as [g' [Hg' H2]]. apply andb_true_iff in H2. destruct H2 as [Hs Hcl].
+    destruct (Inv g' Hg') as [J1 [_ J3]].
+    assert (Hhg' : In h g') by (apply (fr_fsubset_In mine g g' ND I1 J1 Hs); exact Hhg).
+    assert (Hog' : In o g') by (apply (fr_closed_component mine (fr_groups mine) g' h ND Inv Cov Hg' Hcl Hhg'); exact Ho).
+    destruct (fr_best_of_some g' J3) as [b Eb]. destruct (fr_best_of_spec g' b Eb) as [_ Hmax].
+    destruct (fhit_eq_dec_aux b h) as [->|Hne]; [apply Hmax; exact Hog'|]. exfalso.
+    assert (fr_bad (fr_groups mine) h = true) by (apply (fr_bad_iff mine); auto; exists g', b; auto). congruence.
+  - destruct (fr_fconn_first_edge mine h o Ho) as [->|[b [Hb Hf]]]; [lia|]. exfalso.
+    destruct (Cov h b Hh Hb Hf) as [g [Hgin [Hhg _]]].
+    assert (existsb (fun g => fmem h g) (fr_groups mine) = true); [|congruence].
+    apply existsb_exists. exists g. split; [exact Hgin|apply fr_In_fmem; exact Hhg].
+Qed.
+
+Lemma fr_bad_id gs r r' : f_id r = f_id r' -> fr_bad gs r = fr_bad gs r'.
+Proof. intros E. unfold fr_bad, fr_dead, fr_p1. rewrite E. reflexivity. Qed.
+
+Lemma fr_bad_member cds gs r : fr_inv cds gs -> fr_bad gs r = true -> exists h, In h cds /\ f_id h = f_id r.
+Proof.
+  intros Inv H. unfold fr_bad in H. apply existsb_exists in H. destruct H as [g [Hg H]]. unfold fr_dead in H.
+  destruct (best_of g) as [b|]; [|discriminate]. apply existsb_exists in H. destruct H as [h [Hh Hp]].
+  apply (proj1 (fr_rank_order_In g h)) in Hh. unfold fr_p1 in Hp. apply andb_true_iff in Hp. destruct Hp as [P1 _].
+  apply Z.eqb_eq in P1. destruct (Inv g Hg) as [I1 _]. exists h. split; [apply I1; exact Hh|exact P1].
+Qed.
+
+Lemma fr_max_exists : forall l : list fhit, l <> [] -> exists m, In m l /\ forall x, In x l -> f_sc x <= f_sc m.
+Proof.
+  induction l as [|a t IH]; intros H; [contradiction|]. destruct t as [|b t'].
+  - exists a. split; [left; reflexivity|]. intros x [<-|[]]. lia.
+  - destruct IH as [m [Hm Hmax]]; [discriminate|]. destruct (Z.le_gt_cases (f_sc a) (f_sc m)) as [Hle|Hgt].
+    + exists m. split; [right; exact Hm|]. intros x [<-|Hx]; [exact Hle|apply Hmax; exact Hx].
+    + exists a. split; [left; reflexivity|]. intros x [<-|Hx]; [lia|]. specialize (Hmax x Hx). lia.
+Qed.
+
+(* (a)+(b) under the guard: the step is exactly what the property demands (fr_step_spec) *)
+Lemma fr_cds_meets_spec eqg results removed mine r' m' app grd :
+  fr_step_spec eqg results mine = (r', m', app, grd) -> app = true -> grd = true ->
+  fr_J (results, mine, removed) ->
+  exists removed', fr_cds eqg (Ok (results, removed)) mine = (Ok (r', removed'), m').
+Proof.
+  unfold fr_step_spec. destruct (competing eqg mine) eqn:Ec.
+  2:{ intros E _ _ _. inversion E; subst. exists removed. apply fr_cds_not_competing. exact Ec. }
+  intros E Happ Hgrd J. inversion E as [[E1 E2 E3 E4]]. clear E. subst grd. rewrite Happ in E3.
+  apply andb_true_iff in E3. destruct E3 as [Hwf Hd].
+  destruct (fr_fwf_spec mine Hwf) as [Hp ND].
+  rewrite (fr_overlapping_groups_pure mine Hp) in E4.
+  destruct (fr_groups_spec mine ND) as [Inv Cov].
+  destruct (fr_cds_survivors eqg results removed mine Hwf Ec J) as [rem' Ecds].
+  assert (EM : filter (fr_keep mine) mine = filter (comp_best mine) mine).
+  { apply filter_ext_in. intros h Hh. apply fr_keep_guarded; auto. }
+  assert (ER : filter (fr_keep mine) results
+               = filter (fun r => negb (fmem r (filter (fun h => negb (comp_best mine h)) mine))) results).
+  { apply filter_ext. intros r. unfold fr_keep. f_equal.
+    destruct (fmem r (filter (fun h => negb (comp_best mine h)) mine)) eqn:Ef.
+    - apply fr_fmem_iff in Ef. destruct Ef as [h [Hh Eid]]. apply filter_In in Hh. destruct Hh as [Hh Hc].
+      rewrite (fr_bad_id _ r h Eid). apply negb_true_iff in Hc.
+      pose proof (fr_keep_guarded mine h Hwf Hd E4 Hh) as K. rewrite Hc in K. unfold fr_keep in K.
+      apply negb_false_iff in K. exact K.
+    - destruct (fr_bad (fr_groups mine) r) eqn:Eb; [|reflexivity]. exfalso.
+      destruct (fr_bad_member mine _ r Inv Eb) as [h [Hh Eid]].
+      assert (fmem r (filter (fun h => negb (comp_best mine h)) mine) = true); [|congruence].
+      apply fr_fmem_iff. exists h. split; [|symmetry; exact Eid]. apply filter_In. split; [exact Hh|].
+      rewrite (fr_bad_id _ r h (eq_sym Eid)) in Eb.
+      pose proof (fr_keep_guarded mine h Hwf Hd E4 Hh) as K. unfold fr_keep in K. rewrite Eb in K. cbn in K.
+      rewrite <- K. reflexivity. }
+  rewrite EM, ER in Ecds. clear E1 E2.
+  destruct (filter (comp_best mine) mine) as [|m0 mt] eqn:EF; [|exists rem'; exact Ecds]. exfalso.
+  destruct mine as [|h0 t]; [cbv in Ec; discriminate|].
+  destruct (fr_max_exists (h0 :: t)) as [m [Hm Hmax]]; [discriminate|].
+  assert (In m (filter (comp_best (h0 :: t)) (h0 :: t))); [|rewrite EF in H; contradiction].
+  apply filter_In. split; [exact Hm|]. apply (comp_best_spec _ m ND Hm). intros o Ho.
+  apply Hmax. apply (fconn_In _ _ _ Ho).
+Qed.
+
+(* (c) under the guard the survivors do not depend on the order of the gene's hit list *)
+Lemma fr_order_independent_guarded mine mine2 :
+  Permutation mine mine2 -> fwf mine = true -> fwf mine2 = true ->
+  distinct_scores mine = true -> distinct_scores mine2 = true ->
+  groups_guard (fr_groups mine) = true -> groups_guard (fr_groups mine2) = true ->
+  forall h, In h (filter (fr_keep mine) mine) <-> In h (filter (fr_keep mine2) mine2).
+Proof.
+  intros P W1 W2 D1 D2 G1 G2 h. destruct (fr_fwf_spec mine W1) as [_ ND]. rewrite !filter_In.
+  split; intros [Hh K].
+  - assert (Hh2 : In h mine2) by (apply (Permutation_in _ P); exact Hh). split; [exact Hh2|].
+    rewrite (fr_keep_guarded mine2 h W2 D2 G2 Hh2). rewrite <- (comp_best_perm mine mine2 h P ND Hh).
+    rewrite <- (fr_keep_guarded mine h W1 D1 G1 Hh). exact K.
+  - assert (Hh1 : In h mine) by (apply (Permutation_in _ (Permutation_sym P)); exact Hh). split; [exact Hh1|].
+    rewrite (fr_keep_guarded mine h W1 D1 G1 Hh1). rewrite (comp_best_perm mine mine2 h P ND Hh1).
+    rewrite <- (fr_keep_guarded mine2 h W2 D2 G2 Hh). exact K.
+Qed.
+
+(* ---------- the refutations: a chain of five hits v4-v0-v2-v1-v3 given in the order v0 v3 v1 v4 v2
+   builds the groups {v0,v4,v2,v1} and {v3,v1,v2,v0}; none is the component, v4 and v3 both survive *)
+Definition fr_w0 := mkFH 0 0 70 170 20 0.
+Definition fr_w1 := mkFH 1 1 210 310 60 1.
+Definition fr_w2 := mkFH 2 2 140 240 40 2.
+Definition fr_w3 := mkFH 3 3 280 380 180 3.
+Definition fr_w4 := mkFH 4 4 0 100 200 4.
+Definition fr_wit := [fr_w0; fr_w3; fr_w1; fr_w4; fr_w2].
+Definition fr_wit_sorted := [fr_w4; fr_w0; fr_w2; fr_w1; fr_w3].
+
+Lemma fr_components_refuted : exists eqg results mine,
+  fwf mine = true /\ distinct_scores mine = true /\ competing eqg mine = true /\
+  exists s' mine', fr_cds eqg (Ok (results, [])) mine = (Ok s', mine') /\
+    exists x y, In x mine' /\ In y mine' /\ x <> y /\ fconn mine x y.
+Proof.
+  exists [0; 1; 2; 3; 4], fr_wit, fr_wit. split; [reflexivity|]. split; [reflexivity|]. split; [reflexivity|].
+  eexists. exists [fr_w3; fr_w4]. split; [vm_compute; reflexivity|].
+  exists fr_w3, fr_w4. split; [left; reflexivity|]. split; [right; left; reflexivity|]. split; [discriminate|].
+  apply (fcomp_spec fr_wit fr_w3).
+  - apply fr_znodup_NoDup. reflexivity.
+  - right. left. reflexivity.
+  - vm_compute. tauto.
+Qed.
+
+Lemma fr_order_refuted : exists eqg results mine mine2,
+  Permutation mine mine2 /\ fwf mine = true /\ distinct_scores mine = true /\ competing eqg mine = true /\
+  exists s1 m1 s2 m2, fr_cds eqg (Ok (results, [])) mine = (Ok s1, m1) /\
+                      fr_cds eqg (Ok (results, [])) mine2 = (Ok s2, m2) /\
+                      exists h, In h m1 /\ ~ In h m2.
+Proof.
+  exists [0; 1; 2; 3; 4], fr_wit, fr_wit, fr_wit_sorted. split.
+  { unfold fr_wit, fr_wit_sorted.
+    apply NoDup_Permutation.
+    - repeat constructor; cbn; intros H; repeat (destruct H as [H|H]; [discriminate|]); exact H.
+    - repeat constructor; cbn; intros H; repeat (destruct H as [H|H]; [discriminate|]); exact H.
+    - intros x. cbn. tauto. }
+  split; [reflexivity|]. split; [reflexivity|]. split; [reflexivity|].
+  eexists. exists [fr_w3; fr_w4]. eexists. exists [fr_w4]. split; [vm_compute; reflexivity|]. split; [vm_compute; reflexivity|].
+  exists fr_w3. split; [left; reflexivity|]. intros [H|[]]. discriminate.
+Qed.
+
+Lemma fr_guard_rejects_witness : exists gs, overlapping_groups fr_wit = Ok gs /\ groups_guard gs = false.
+Proof. eexists. split; vm_compute; reflexivity. Qed.
+
+(* ---------- hmmer.remove_overlapping rank order; best score / least e-value of merges *)
+
+(* DEFINITIONS *)
+(* a returned hit together with the input hits it is made of (in merge order) *)
+Inductive fragof (L : Z -> Z) (inp : list hit) : list hit -> hit -> Prop :=
+| fragof_in h : In h inp -> fragof L inp [h] h
+| fragof_merge a b cs : fragof L inp cs a -> In b inp -> prof b = prof a ->
+    2 * (en b - st a) < 3 * L (prof a) -> fragof L inp (cs ++ [b]) (merge a b).
+(* END DEFINITIONS *)
+
+(* ------------------------------------------------------------------ A1: ranking_stats is a strict total order *)
+Lemma rank_lt_irrefl cut a : rank_lt cut a a = false.
+Proof. unfold rank_lt. lia. Qed.
+
+Lemma rank_lt_trans cut a b c : hh_pos cut a -> hh_pos cut b -> hh_pos cut c ->
+  rank_lt cut a b = true -> rank_lt cut b c = true -> rank_lt cut a c = true.
+Proof.
+  unfold hh_pos, rank_lt. intros [Sa _] [Sb _] [Sc _].
+  pose proof (ratio_lt_le (cut (h_id a)) (cut (h_id b)) (cut (h_id c)) (h_sc a) (h_sc b) (h_sc c) Sa Sb Sc) as T1.
+  pose proof (ratio_le_lt (cut (h_id a)) (cut (h_id b)) (cut (h_id c)) (h_sc a) (h_sc b) (h_sc c) Sa Sb Sc) as T2.
+  pose proof (ratio_eq_eq (cut (h_id a)) (cut (h_id b)) (cut (h_id c)) (h_sc a) (h_sc b) (h_sc c) Sb) as T3.
+  unfold hh_len. lia.
+Qed.
+
+Lemma rank_lt_total cut a b : hh_pos cut a -> hh_pos cut b ->
+  rank_lt cut a b = false -> rank_lt cut b a = false -> a = b.
+Proof.
+  unfold hh_pos, rank_lt, hh_len. intros [_ Ca] [_ Cb] H1 H2.
+  assert (Ei : h_id a = h_id b) by lia.
+  assert (Es : h_st a = h_st b) by lia.
+  assert (Ee : h_en a = h_en b) by lia.
+  assert (En : cut (h_id a) * h_sc b = cut (h_id b) * h_sc a) by lia.
+  rewrite <- Ei in En. apply Z.mul_reg_l in En; [|lia].
+  destruct a, b. cbn in *. f_equal; lia.
+Qed.
+
+Lemma rank_lt_asym cut a b : hh_pos cut a -> hh_pos cut b ->
+  rank_lt cut a b = true -> rank_lt cut b a = false.
+Proof.
+  intros Pa Pb H. destruct (rank_lt cut b a) eqn:E; [|reflexivity].
+  pose proof (rank_lt_trans cut a b a Pa Pb Pa H E) as X. rewrite rank_lt_irrefl in X. discriminate.
+Qed.
+
+(* on distinct hits "not worse" is "strictly better" *)
+Lemma rank_lt_connected cut a b : hh_pos cut a -> hh_pos cut b -> a <> b ->
+  rank_lt cut a b = false -> rank_lt cut b a = true.
+Proof.
+  intros Pa Pb Hne H. destruct (rank_lt cut b a) eqn:E; [reflexivity|].
+  exfalso. apply Hne. apply (rank_lt_total cut a b Pa Pb H E).
+Qed.
+
+(* what "x does not rank strictly better than b" says, field by field *)
+Lemma rank_lt_false_spelled cut x b : rank_lt cut x b = false <->
+  (cut (h_id b) * h_sc x <= cut (h_id x) * h_sc b /\
+   (cut (h_id b) * h_sc x = cut (h_id x) * h_sc b -> hh_len x <= hh_len b /\
+    (hh_len x = hh_len b -> h_st b <= h_st x /\
+     (h_st b = h_st x -> h_id b <= h_id x)))).
+Proof. unfold rank_lt. lia. Qed.
+
+(* ------------------------------------------------------------------ A2: the head of the rank-sorted group is a best hit *)
+Lemma rank_sort_wsorted cut G : (forall h, In h G -> hh_pos cut h) ->
+  wsorted (rank_lt cut) (sort_by (rank_lt cut) G).
+Proof.
+  intros Hpos.
+  apply (sort_by_wsorted (rank_lt cut) (hh_pos cut) (rank_lt_irrefl cut) (rank_lt_trans cut)).
+  apply Forall_forall. exact Hpos.
+Qed.
+
+Lemma rank_head_best cut G b rest :
+  (forall h, In h G -> hh_pos cut h) -> sort_by (rank_lt cut) G = b :: rest ->
+  In b G /\ forall x, In x G -> rank_lt cut x b = false.
+Proof.
+  intros Hpos E. pose proof (rank_sort_wsorted cut G Hpos) as W. rewrite E in W.
+  split.
+  - apply (sort_by_In (rank_lt cut)). rewrite E. left. reflexivity.
+  - intros x Hx. apply (sort_by_In (rank_lt cut)) in Hx. rewrite E in Hx.
+    inversion W as [|? ? _ Hall]; subst. rewrite Forall_forall in Hall.
+    destruct Hx as [<-|Hx]; [apply rank_lt_irrefl|apply Hall; exact Hx].
+Qed.
+
+Lemma rank_head_best_spelled cut G b rest :
+  (forall h, In h G -> hh_pos cut h) -> sort_by (rank_lt cut) G = b :: rest ->
+  In b G /\ forall x, In x G ->
+    cut (h_id b) * h_sc x <= cut (h_id x) * h_sc b /\
+    (cut (h_id b) * h_sc x = cut (h_id x) * h_sc b -> hh_len x <= hh_len b /\
+     (hh_len x = hh_len b -> h_st b <= h_st x /\
+      (h_st b = h_st x -> h_id b <= h_id x))).
+Proof.
+  intros Hpos E. destruct (rank_head_best cut G b rest Hpos E) as [Hb Hall].
+  split; [exact Hb|]. intros x Hx. apply rank_lt_false_spelled. apply Hall. exact Hx.
+Qed.
+
+(* ------------------------------------------------------------------ A3: a dropped hit has a better-ranked, overlapping, kept hit *)
+Lemma mem_hh_In x : forall s, mem hh_eqb x s = true -> In x s.
+Proof.
+  induction s as [|y ys IH]; cbn [mem]; intros H; [discriminate|].
+  apply orb_true_iff in H. destruct H as [H|H].
+  - left. symmetry. apply hh_eqb_eq. exact H.
+  - right. apply IH. exact H.
+Qed.
+
+Lemma set_add_In_conv x s z : z = x \/ In z s -> In z (set_add x s).
+Proof.
+  unfold set_add. intros H. destruct (mem hh_eqb x s) eqn:E.
+  - destruct H as [->|H]; [apply mem_hh_In; exact E|exact H].
+  - apply in_or_app. destruct H as [->|H]; [right; left; reflexivity|left; exact H].
+Qed.
+
+Lemma group_fold_complete limit : forall rest groups current maxc groups' current' maxc',
+  fold_left (group_step limit) rest (groups, current, maxc) = (groups', current', maxc') ->
+  forall x, (In x rest \/ In x current \/ exists G0, In G0 groups /\ In x G0) ->
+  exists G, In G (groups' ++ [current']) /\ In x G.
+Proof.
+  induction rest as [|h hs IH]; intros groups current maxc groups' current' maxc' E x Hx; cbn [fold_left] in E.
+  - inversion E; subst. destruct Hx as [[]|[Hx|[G0 [HG0 Hx]]]].
+    + exists current'. split; [apply in_or_app; right; left; reflexivity|exact Hx].
+    + exists G0. split; [apply in_or_app; left; exact HG0|exact Hx].
+  - unfold group_step at 2 in E. destruct (maxc - limit <? h_st h).
+    + apply (IH _ _ _ _ _ _ E x).
+      destruct Hx as [[<-|Hx]|[Hx|[G0 [HG0 Hx]]]].
+      * right. left. left. reflexivity.
+      * left. exact Hx.
+      * right. right. exists current. split; [apply in_or_app; right; left; reflexivity|exact Hx].
+      * right. right. exists G0. split; [apply in_or_app; left; exact HG0|exact Hx].
+    + apply (IH _ _ _ _ _ _ E x).
+      destruct Hx as [[<-|Hx]|[Hx|Hx]].
+      * right. left. apply set_add_In_conv. left. reflexivity.
+      * left. exact Hx.
+      * right. left. apply set_add_In_conv. right. exact Hx.
+      * right. right. exact Hx.
+Qed.
+
+(* every hit of the sorted list lies in some group *)
+Lemma hh_groups_complete limit sorted : forall x, In x sorted ->
+  exists G, In G (hh_groups limit sorted) /\ In x G.
+Proof.
+  intros x Hx. unfold hh_groups. destruct sorted as [|h0 t]; [destruct Hx|].
+  destruct (fold_left (group_step limit) t ([], [h0], h_en h0)) as [[groups current] maxc] eqn:Ef.
+  apply (group_fold_complete limit t [] [h0] (h_en h0) groups current maxc Ef x).
+  destruct Hx as [<-|Hx]; [right; left; left; reflexivity|left; exact Hx].
+Qed.
+
+Lemma best_fold_acc_In limit l acc x : In x acc -> In x (fold_left (best_step limit) l acc).
+Proof.
+  intros Hx. destruct (best_fold_sub limit l acc) as [m [E _]]. rewrite E. apply in_or_app. left. exact Hx.
+Qed.
+
+(* the pass over a list in which no later element ranks strictly better than an earlier one:
+   a hit that is not kept conflicts with a kept hit that is an initial one or not worse ranked *)
+Lemma best_fold_dropped limit cut : forall l acc, wsorted (rank_lt cut) l ->
+  forall x, In x l -> ~ In x (fold_left (best_step limit) l acc) ->
+  exists k, In k (fold_left (best_step limit) l acc) /\ conflict limit x k = true /\
+    (In k acc \/ rank_lt cut x k = false).
+Proof.
+  induction l as [|h hs IH]; intros acc Hs x Hx Hn; [destruct Hx|].
+  cbn [fold_left] in *. inversion Hs as [|? ? Hs' Hall]; subst. rewrite Forall_forall in Hall.
+  remember (best_step limit acc h) as acc' eqn:Ea. unfold best_step in Ea.
+  destruct Hx as [<-|Hx].
+  - destruct (existsb (conflict limit h) acc) eqn:E.
+    + apply existsb_exists in E. destruct E as [o [Ho Hc]]. exists o. subst acc'.
+      split; [apply best_fold_acc_In; exact Ho|]. split; [exact Hc|left; exact Ho].
+    + exfalso. apply Hn. apply best_fold_acc_In. subst acc'. apply in_or_app. right. left. reflexivity.
+  - destruct (IH acc' Hs' x Hx Hn) as [k [Hk [Hc [Hka|Hr]]]].
+    + exists k. split; [exact Hk|]. split; [exact Hc|].
+      destruct (existsb (conflict limit h) acc); subst acc'.
+      * left. exact Hka.
+      * apply in_app_or in Hka. destruct Hka as [Hka|[<-|[]]]; [left; exact Hka|right; apply Hall; exact Hx].
+    + exists k. split; [exact Hk|]. split; [exact Hc|right; exact Hr].
+Qed.
+
+Lemma best_of_group_dropped_weak limit cut G : (forall h, In h G -> hh_pos cut h) ->
+  forall x, In x G -> ~ In x (best_of_group limit cut G) ->
+  exists k, In k (best_of_group limit cut G) /\ conflict limit x k = true /\ rank_lt cut x k = false.
+Proof.
+  intros Hpos x Hx Hn.
+  assert (Hx' : In x (sort_by (rank_lt cut) G)) by (apply sort_by_In; exact Hx).
+  destruct (best_fold_dropped limit cut (sort_by (rank_lt cut) G) [] (rank_sort_wsorted cut G Hpos) x Hx' Hn)
+    as [k [Hk [Hc [[]|Hr]]]].
+  exists k. split; [exact Hk|]. split; [exact Hc|exact Hr].
+Qed.
+
+Lemma best_of_group_dropped limit cut G : (forall h, In h G -> hh_pos cut h) ->
+  forall x, In x G -> ~ In x (best_of_group limit cut G) ->
+  exists k, In k (best_of_group limit cut G) /\ conflict limit x k = true /\ rank_lt cut k x = true.
+Proof.
+  intros Hpos x Hx Hn.
+  destruct (best_of_group_dropped_weak limit cut G Hpos x Hx Hn) as [k [Hk [Hc Hr]]].
+  exists k. split; [exact Hk|]. split; [exact Hc|].
+  apply rank_lt_connected; [apply Hpos; exact Hx|apply Hpos; apply (best_of_group_In limit cut G k Hk)| |exact Hr].
+  intros ->. contradiction.
+Qed.
+
+Lemma hh_eq_dec (a b : hhit) : {a = b} + {a <> b}.
+Proof.
+  destruct (hh_eqb a b) eqn:E.
+  - left. apply hh_eqb_eq. exact E.
+  - right. intros H. apply hh_eqb_eq in H. rewrite H in E. discriminate.
+Qed.
+
+(* A4: within one group, kept = no better-ranked kept hit conflicts *)
+Lemma hmmer_kept_iff limit cut G : (forall h, In h G -> hh_pos cut h) ->
+  forall x, In x (best_of_group limit cut G) <->
+    (In x G /\ forall k, In k (best_of_group limit cut G) -> rank_lt cut k x = true -> conflict limit x k = false).
+Proof.
+  intros Hpos x. split.
+  - intros Hx. split; [apply (best_of_group_In limit cut G x Hx)|].
+    intros k Hk Hr. apply (best_of_group_noconf limit cut G x k Hx Hk).
+    intros ->. rewrite rank_lt_irrefl in Hr. discriminate.
+  - intros [Hx Hall].
+    destruct (in_dec hh_eq_dec x (best_of_group limit cut G)) as [Hin|Hn]; [exact Hin|].
+    exfalso. destruct (best_of_group_dropped limit cut G Hpos x Hx Hn) as [k [Hk [Hc Hr]]].
+    rewrite (Hall k Hk Hr) in Hc. discriminate.
+Qed.
+
+Lemma hmmer_dropped_has_better_kept limit cutoffs hits out :
+  hmmer_remove_overlapping limit cutoffs hits = Ok out ->
+  (forall h, In h hits -> hh_pos (cut_of cutoffs) h) ->
+  forall x, In x hits -> ~ In x out ->
+  exists k, In k out /\ conflict limit x k = true /\ rank_lt (cut_of cutoffs) k x = true.
+Proof.
+  unfold hmmer_remove_overlapping. destruct hits as [|h0 t] eqn:Eh; [discriminate|]. rewrite <- Eh.
+  destruct (forallb _ hits); [|discriminate]. intros H. inversion H; subst out. clear H.
+  set (cut := cut_of cutoffs).
+  set (sorted := sort_by (hh_sort_lt cut) hits).
+  intros Hpos x Hx Hnx.
+  assert (Hs : StronglySorted Z.le (map h_st sorted)) by (apply hh_sorted_by_start).
+  destruct (hh_groups_spec limit sorted Hs) as [_ G2].
+  assert (Hxs : In x sorted) by (unfold sorted; apply sort_by_In; exact Hx).
+  destruct (hh_groups_complete limit sorted x Hxs) as [G [HG HxG]].
+  assert (HposG : forall h, In h G -> hh_pos cut h).
+  { intros h Hh. apply Hpos. apply (sort_by_In (hh_sort_lt cut)). apply (G2 G h HG Hh). }
+  assert (Hnb : ~ In x (best_of_group limit cut G)).
+  { intros X. apply Hnx. apply sort_by_In. apply in_flat_map. exists G. split; assumption. }
+  destruct (best_of_group_dropped limit cut G HposG x HxG Hnb) as [k [Hk [Hc Hr]]].
+  exists k. split; [|split; assumption].
+  apply sort_by_In. apply in_flat_map. exists G. split; assumption.
+Qed.
+
+(* ------------------------------------------------------------------ B: the merged hit carries the extremes of its fragments *)
+Lemma merge_best_score a b :
+  sc (merge a b) = Z.max (sc a) (sc b) /\ ev (merge a b) = Z.min (ev a) (ev b) /\
+  st (merge a b) = Z.min (st a) (st b) /\ en (merge a b) = Z.max (en a) (en b).
+Proof. repeat split; reflexivity. Qed.
+
+Lemma fragof_incl L inp inp' cs h : (forall x, In x inp -> In x inp') -> fragof L inp cs h -> fragof L inp' cs h.
+Proof.
+  intros Hi H. induction H as [h Hh|a b cs Ha IH Hb Hp Hs].
+  - apply fragof_in. apply Hi. exact Hh.
+  - apply fragof_merge; [exact IH|apply Hi; exact Hb|exact Hp|exact Hs].
+Qed.
+
+Lemma fragof_frag L inp cs h : fragof L inp cs h -> frag L inp h.
+Proof.
+  intros H. induction H as [h Hh|a b cs Ha IH Hb Hp Hs].
+  - apply frag_in. exact Hh.
+  - apply frag_merge; [exact IH|exact Hb|symmetry; exact Hp|rewrite Hp; exact Hs].
+Qed.
+
+Lemma fragof_extremes L inp cs h : fragof L inp cs h ->
+  cs <> [] /\
+  (forall c, In c cs -> In c inp /\ prof c = prof h /\ sc c <= sc h /\ ev h <= ev c /\ st h <= st c /\ en c <= en h) /\
+  (exists c, In c cs /\ sc c = sc h) /\
+  (exists c, In c cs /\ ev c = ev h) /\
+  (exists c, In c cs /\ st c = st h) /\
+  (exists c, In c cs /\ en c = en h).
+Proof.
+  intros H. induction H as [h Hh|a b cs Ha IH Hb Hp Hs].
+  - split; [discriminate|]. split.
+    + intros c [<-|[]]. split; [exact Hh|]. lia.
+    + repeat split; exists h; (split; [left; reflexivity|reflexivity]).
+  - destruct IH as [Hne [Hall [[c1 [I1 E1]] [[c2 [I2 E2]] [[c3 [I3 E3]] [c4 [I4 E4]]]]]]].
+    split; [destruct cs; discriminate|]. split.
+    + intros c Hc. rewrite merge_prof, merge_sc, merge_ev, merge_st, merge_en.
+      apply in_app_or in Hc. destruct Hc as [Hc|[<-|[]]].
+      * destruct (Hall c Hc) as [A [B C]]. split; [exact A|]. split; [exact B|]. lia.
+      * split; [exact Hb|]. split; [exact Hp|]. lia.
+    + rewrite merge_sc, merge_ev, merge_st, merge_en.
+      assert (Inb : In b (cs ++ [b])) by (apply in_or_app; right; left; reflexivity).
+      assert (Inc : forall c, In c cs -> In c (cs ++ [b])) by (intros c Hc; apply in_or_app; left; exact Hc).
+      split; [|split; [|split]].
+      * destruct (Z.max_spec (sc a) (sc b)) as [[_ ->]|[_ ->]].
+        -- exists b. split; [exact Inb|reflexivity].
+        -- exists c1. split; [apply Inc; exact I1|exact E1].
+      * destruct (Z.min_spec (ev a) (ev b)) as [[_ ->]|[_ ->]].
+        -- exists c2. split; [apply Inc; exact I2|exact E2].
+        -- exists b. split; [exact Inb|reflexivity].
+      * destruct (Z.min_spec (st a) (st b)) as [[_ ->]|[_ ->]].
+        -- exists c3. split; [apply Inc; exact I3|exact E3].
+        -- exists b. split; [exact Inb|reflexivity].
+      * destruct (Z.max_spec (en a) (en b)) as [[_ ->]|[_ ->]].
+        -- exists b. split; [exact Inb|reflexivity].
+        -- exists c4. split; [apply Inc; exact I4|exact E4].
+Qed.
+
+Lemma mn_fragof L inp : forall rest cur, (exists cs, fragof L inp cs cur) -> (forall x, In x rest -> In x inp) ->
+  forall h, In h (mn L cur rest) -> exists cs, fragof L inp cs h.
+Proof.
+  induction rest as [|d ds IH]; intros cur Hc Hr h Hh; cbn [mn] in Hh.
+  - destruct Hh as [<-|[]]. exact Hc.
+  - assert (Hd : In d inp) by (apply Hr; left; reflexivity).
+    assert (Hds : forall x, In x ds -> In x inp) by (intros x Hx; apply Hr; right; exact Hx).
+    assert (Fd : exists cs, fragof L inp cs d) by (exists [d]; apply fragof_in; exact Hd).
+    destruct (negb (prof d =? prof cur)) eqn:Ep.
+    + destruct Hh as [<-|Hh]; [exact Hc|]. apply (IH d); [exact Fd|exact Hds|exact Hh].
+    + destruct (2 * (en d - st cur) <? 3 * L (prof d)) eqn:Es.
+      * apply (IH (merge cur d)); [|exact Hds|exact Hh].
+        destruct Hc as [cs Hc]. exists (cs ++ [d]).
+        assert (Epr : prof d = prof cur) by lia.
+        apply fragof_merge; [exact Hc|exact Hd|exact Epr|rewrite <- Epr; lia].
+      * destruct Hh as [<-|Hh]; [exact Hc|]. apply (IH d); [exact Fd|exact Hds|exact Hh].
+Qed.
+
+Lemma mcat_fragof L inp p : forall rest merged, (exists cs, fragof L inp cs merged) ->
+  (forall x, In x rest -> In x inp /\ prof x = p) -> prof merged = p ->
+  forall h, In h (mcat L p merged rest) -> exists cs, fragof L inp cs h.
+Proof.
+  induction rest as [|o os IH]; intros merged Hm Hr Hp h Hh; cbn [mcat] in Hh.
+  - destruct Hh as [<-|[]]. exact Hm.
+  - destruct (Hr o (or_introl eq_refl)) as [Ho Hpo].
+    assert (Hos : forall x, In x os -> In x inp /\ prof x = p) by (intros x Hx; apply Hr; right; exact Hx).
+    destruct (2 * (en o - st merged) <? 3 * L p) eqn:Es.
+    + apply (IH (merge merged o)); [|exact Hos|rewrite merge_prof; exact Hp|exact Hh].
+      destruct Hm as [cs Hm]. exists (cs ++ [o]).
+      apply fragof_merge; [exact Hm|exact Ho|congruence|rewrite Hp; lia].
+    + destruct Hh as [<-|Hh]; [exact Hm|].
+      apply (IH o); [exists [o]; apply fragof_in; exact Ho|exact Hos|exact Hpo|exact Hh].
+Qed.
+
+Lemma merge_domain_list_fragof L l h : In h (merge_domain_list L l) -> exists cs, fragof L l cs h.
+Proof.
+  unfold merge_domain_list. rewrite sort_by_In. rewrite in_flat_map. intros [p [_ Hh]].
+  destruct (category p l) as [|c0 cs] eqn:Ec; [destruct Hh|].
+  assert (Hc : forall x, In x (c0 :: cs) -> In x l /\ prof x = p).
+  { intros x Hx. rewrite <- Ec in Hx. unfold category in Hx. apply filter_In in Hx. split; [tauto|lia]. }
+  apply (mcat_fragof L l p cs c0).
+  - exists [c0]. apply fragof_in. apply Hc. left. reflexivity.
+  - intros x Hx. apply Hc. right. exact Hx.
+  - apply Hc. left. reflexivity.
+  - exact Hh.
+Qed.
+
+Lemma refine_gene_fragof nb L reg l out h : refine_gene nb L reg l = Ok out -> In h out ->
+  exists cs, fragof L l cs h.
+Proof.
+  unfold refine_gene. destruct nb.
+  - destruct (canonical l) as [|c t] eqn:E; cbn [remove_overlapping_l bind]; [discriminate|].
+    destruct (ro L c t) as [|h' t'] eqn:Er; cbn [merge_neighbours_l bind]; [discriminate|].
+    intros H Hh. inversion H; subst.
+    apply (sub_In _ _ (remove_incomplete_sub L reg _)) in Hh.
+    assert (Hro : forall x, In x (h' :: t') -> In x l).
+    { intros x Hx. rewrite <- Er in Hx. apply (sub_In _ _ (ro_sub L t c)) in Hx. rewrite <- E in Hx.
+      apply canonical_In. exact Hx. }
+    apply (mn_fragof L l t' h'); [exists [h']; apply fragof_in; apply Hro; left; reflexivity| |exact Hh].
+    intros x Hx. apply Hro. right. exact Hx.
+  - destruct (merge_domain_list L (canonical l)) as [|c t] eqn:E; cbn [remove_overlapping_l bind]; [discriminate|].
+    intros H Hh. inversion H; subst.
+    apply (sub_In _ _ (remove_incomplete_sub L reg _)) in Hh.
+    apply (sub_In _ _ (ro_sub L t c)) in Hh. rewrite <- E in Hh.
+    apply merge_domain_list_fragof in Hh. destruct Hh as [cs Hh]. exists cs.
+    apply (fragof_incl L (canonical l)); [|exact Hh]. intros x. apply canonical_In.
+Qed.
+
+(* the two together: a returned hit carries the best score and least e-value of input hits of its
+   profile that it spans *)
+Lemma refine_gene_best_of_fragments nb L reg l out h : refine_gene nb L reg l = Ok out -> In h out ->
+  exists cs, cs <> [] /\
+    (forall c, In c cs -> In c l /\ prof c = prof h /\ sc c <= sc h /\ ev h <= ev c /\ st h <= st c /\ en c <= en h) /\
+    (exists c, In c cs /\ sc c = sc h) /\ (exists c, In c cs /\ ev c = ev h) /\
+    (exists c, In c cs /\ st c = st h) /\ (exists c, In c cs /\ en c = en h).
+Proof.
+  intros H Hh. destruct (refine_gene_fragof nb L reg l out h H Hh) as [cs F].
+  exists cs. exact (fragof_extremes L l cs h F).
+Qed.
+
+
+(* C13 - the pairwise-margin clause under a decidable input-level guard. *)
+
+(* LEMMAS (go to the end of Proofs.v) *)
+(* ------------------------------------------------------------------ pairwise margin: list algebra *)
+Lemma pm_cons L a t : pairwise_margin L (a :: t) = true <->
+  (forall b, In b t -> ovl L b a = false) /\ pairwise_margin L t = true.
+Proof.
+  cbn [pairwise_margin]. rewrite andb_true_iff, forallb_forall. split; intros [H1 H2]; (split; [|exact H2]).
+  - intros b Hb. specialize (H1 b Hb). destruct (ovl L b a); [discriminate|reflexivity].
+  - intros b Hb. rewrite (H1 b Hb). reflexivity.
+Qed.
+
+Lemma pm_snoc L x : forall fin, pairwise_margin L (fin ++ [x]) = true <->
+  pairwise_margin L fin = true /\ (forall z, In z fin -> ovl L x z = false).
+Proof.
+  induction fin as [|a fin IH]; cbn [app].
+  - split; [intros _; split; [reflexivity|intros z []]|intros _; reflexivity].
+  - rewrite !pm_cons, IH. split.
+    + intros [H1 [H2 H3]]. split; [split; [|exact H2]|].
+      * intros b Hb. apply H1. apply in_or_app. left. exact Hb.
+      * intros z [<-|Hz]; [apply H1; apply in_or_app; right; left; reflexivity|apply H3; exact Hz].
+    + intros [[H1 H2] H3]. split; [|split; [exact H2|]].
+      * intros b Hb. apply in_app_or in Hb. destruct Hb as [Hb|[<-|[]]]; [apply H1; exact Hb|apply H3; left; reflexivity].
+      * intros z Hz. apply H3. right. exact Hz.
+Qed.
+
+Lemma pm_sub L l1 l2 : sub l1 l2 -> pairwise_margin L l2 = true -> pairwise_margin L l1 = true.
+Proof.
+  induction 1 as [|y l1 l2 H IH|y l1 l2 H IH]; intros Hp.
+  - reflexivity.
+  - apply pm_cons in Hp. apply IH. tauto.
+  - apply pm_cons in Hp. destruct Hp as [H1 H2]. apply pm_cons. split; [|apply IH; exact H2].
+    intros b Hb. apply H1. apply (sub_In _ _ H). exact Hb.
+Qed.
+
+(* the Prop reading of pairwise_margin: an ordered pair of the list never overlaps beyond the margin *)
+Lemma pm_pairs L l : pairwise_margin L l = true <-> (forall a b, sub [a; b] l -> ovl L b a = false).
+Proof.
+  induction l as [|x t IH].
+  - split; [intros _ a b H; inversion H|reflexivity].
+  - rewrite pm_cons, IH. split.
+    + intros [H1 H2] a b H. inversion H as [|? ? ? H'|? ? ? H']; subst.
+      * apply H2. exact H'.
+      * apply H1. apply (sub_In _ _ H'). left. reflexivity.
+    + intros H. split.
+      * intros b Hb. apply H. apply sub_keep. clear - Hb. induction t as [|y t IH]; [destruct Hb|].
+        destruct Hb as [<-|Hb]; [apply sub_keep; apply sub_nil_l|apply sub_skip; apply IH; exact Hb].
+      * intros a b H'. apply H. apply sub_skip. exact H'.
+Qed.
+
+(* ------------------------------------------------------------------ monotone overlap *)
+Definition monoP (L : Z -> Z) (l : list hit) : Prop :=
+  forall a b c, sub [a; b; c] l -> ovl L c a = true -> ovl L b a = true.
+
+Lemma mono_from_spec L a : forall t, mono_from L a t = true ->
+  forall b c, sub [b; c] t -> ovl L c a = true -> ovl L b a = true.
+Proof.
+  induction t as [|x t IH]; intros Hm b c Hs Hc; [inversion Hs|].
+  cbn [mono_from] in Hm. apply andb_true_iff in Hm. destruct Hm as [H1 H2].
+  inversion Hs as [|? ? ? H'|? ? ? H']; subst.
+  - apply (IH H2 b c H' Hc).
+  - rewrite forallb_forall in H1. specialize (H1 c (sub_In _ _ H' c (or_introl eq_refl))).
+    rewrite Hc in H1. cbn [negb orb] in H1. exact H1.
+Qed.
+
+Lemma mono_ovl_monoP L : forall l, mono_ovl L l = true -> monoP L l.
+Proof.
+  induction l as [|x t IH]; intros Hm a b c Hs Hc; [inversion Hs|].
+  cbn [mono_ovl] in Hm. apply andb_true_iff in Hm. destruct Hm as [H1 H2].
+  inversion Hs as [|? ? ? H'|? ? ? H']; subst.
+  - apply (IH H2 a b c H' Hc).
+  - eapply mono_from_spec; eassumption.
+Qed.
+
+Lemma monoP_sub L l1 l2 : sub l1 l2 -> monoP L l2 -> monoP L l1.
+Proof. intros Hs Hm a b c H. apply Hm. apply (sub_trans _ _ _ H Hs). Qed.
+
+(* the boolean guard is exactly the Prop *)
+Lemma sub_pair_In {A} (b c : A) : forall t, In c t -> sub [b; c] (b :: t).
+Proof.
+  intros t Hc. apply sub_keep. induction t as [|y t IH]; [destruct Hc|].
+  destruct Hc as [<-|Hc]; [apply sub_keep; apply sub_nil_l|apply sub_skip; apply IH; exact Hc].
+Qed.
+
+Lemma mono_from_complete L a : forall t,
+  (forall b c, sub [b; c] t -> ovl L c a = true -> ovl L b a = true) -> mono_from L a t = true.
+Proof.
+  induction t as [|b t IH]; intros H; cbn [mono_from]; [reflexivity|].
+  apply andb_true_iff. split.
+  - apply forallb_forall. intros c Hc. destruct (ovl L c a) eqn:E; [|reflexivity].
+    rewrite (H b c (sub_pair_In b c t Hc) E). reflexivity.
+  - apply IH. intros b' c' Hs. apply H. apply sub_skip. exact Hs.
+Qed.
+
+Lemma mono_ovl_iff L : forall l, mono_ovl L l = true <-> monoP L l.
+Proof.
+  intros l. split; [apply mono_ovl_monoP|].
+  induction l as [|a t IH]; intros H; cbn [mono_ovl]; [reflexivity|].
+  apply andb_true_iff. split.
+  - apply mono_from_complete. intros b c Hs. apply H. apply sub_keep. exact Hs.
+  - apply IH. apply (monoP_sub L t (a :: t)); [apply sub_skip; apply sub_refl|exact H].
+Qed.
+
+Lemma sub_In_app {A} (z : A) : forall fin l1 l2, In z fin -> sub l1 l2 -> sub (z :: l1) (fin ++ l2).
+Proof.
+  induction fin as [|a fin IH]; intros l1 l2 Hz Hs; [destruct Hz|]. cbn [app].
+  destruct Hz as [<-|Hz].
+  - apply sub_keep. clear IH. induction fin as [|b fin IH]; [exact Hs|]. cbn [app]. apply sub_skip. exact IH.
+  - apply sub_skip. apply IH; assumption.
+Qed.
+
+Lemma sub_app_l {A} (p : list A) : forall l1 l2, sub l1 l2 -> sub (p ++ l1) (p ++ l2).
+Proof. induction p as [|a p IH]; intros l1 l2 H; cbn [app]; [exact H|]. apply sub_keep. apply IH. exact H. Qed.
+
+(* _remove_overlapping under the guard: [fin] = the hits already final, in order *)
+Lemma ro_pairwise_inv L : forall rest prev fin,
+  monoP L (fin ++ prev :: rest) -> pairwise_margin L fin = true ->
+  (forall z, In z fin -> ovl L prev z = false) ->
+  pairwise_margin L (fin ++ ro L prev rest) = true.
+Proof.
+  induction rest as [|r rs IH]; intros prev fin Hm Hp Hz; cbn [ro].
+  - apply pm_snoc. split; assumption.
+  - assert (Hr : forall z, In z fin -> ovl L r z = false).
+    { intros z Hin. destruct (ovl L r z) eqn:E; [|reflexivity].
+      rewrite <- (Hz z Hin). symmetry. apply (Hm z prev r); [|exact E].
+      apply sub_In_app; [exact Hin|]. apply sub_keep. apply sub_keep. apply sub_nil_l. }
+    destruct (ovl L r prev) eqn:Eo.
+    + destruct (sc prev <? sc r).
+      * apply IH; [|exact Hp|exact Hr].
+        apply (monoP_sub L _ _ (sub_app_l fin _ _ (sub_skip prev _ _ (sub_refl (r :: rs)))) Hm).
+      * apply IH; [|exact Hp|exact Hz].
+        apply (monoP_sub L _ (fin ++ prev :: r :: rs)); [|exact Hm].
+        apply sub_app_l. apply sub_keep. apply sub_skip. apply sub_refl.
+    + change (fin ++ prev :: ro L r rs) with (fin ++ [prev] ++ ro L r rs). rewrite app_assoc.
+      apply IH.
+      * rewrite <- app_assoc. exact Hm.
+      * apply pm_snoc. split; assumption.
+      * intros z Hin. apply in_app_or in Hin. destruct Hin as [Hin|[<-|[]]]; [apply Hr; exact Hin|exact Eo].
+Qed.
+
+Lemma ro_pairwise_guarded : forall L rest prev,
+  mono_ovl L (prev :: rest) = true -> pairwise_margin L (ro L prev rest) = true.
+Proof.
+  intros L rest prev H. apply (ro_pairwise_inv L rest prev []).
+  - apply mono_ovl_monoP. exact H.
+  - reflexivity.
+  - intros z [].
+Qed.
+
+(* ------------------------------------------------------------------ _merge_immediate_neigbours *)
+Lemma sorted_st_cons_inv a t : sorted_st (a :: t) -> sorted_st t /\ (forall x, In x t -> st a <= st x).
+Proof.
+  unfold sorted_st. cbn [map]. intros H. inversion H as [|? ? Hs Hall]; subst. split; [exact Hs|].
+  rewrite Forall_forall in Hall. intros x Hx. apply Hall. apply in_map. exact Hx.
+Qed.
+
+Lemma sorted_st_cons a t : sorted_st t -> (forall x, In x t -> st a <= st x) -> sorted_st (a :: t).
+Proof.
+  unfold sorted_st. cbn [map]. intros Hs Hall. constructor; [exact Hs|].
+  rewrite Forall_forall. intros z Hz. apply in_map_iff in Hz. destruct Hz as [w [<- Hw]]. apply Hall. exact Hw.
+Qed.
+
+Lemma sorted_st_merge cur d ds : sorted_st (cur :: d :: ds) ->
+  st (merge cur d) = st cur /\ sorted_st (merge cur d :: ds).
+Proof.
+  intros H. apply sorted_st_cons_inv in H. destruct H as [H1 H2].
+  apply sorted_st_cons_inv in H1. destruct H1 as [H1 H3].
+  assert (E : st (merge cur d) = st cur).
+  { rewrite merge_st. specialize (H2 d (or_introl eq_refl)). lia. }
+  split; [exact E|]. apply sorted_st_cons; [exact H1|].
+  intros x Hx. rewrite E. apply H2. right. exact Hx.
+Qed.
+
+(* every hit of the result starts where a hit of the input starts, with that hit's profile *)
+Lemma mn_heads L : forall rest cur, sorted_st (cur :: rest) ->
+  forall y, In y (mn L cur rest) -> exists x, In x (cur :: rest) /\ st y = st x /\ prof y = prof x.
+Proof.
+  induction rest as [|d ds IH]; intros cur Hs y Hy; cbn [mn] in Hy.
+  - destruct Hy as [<-|[]]. exists cur. split; [left; reflexivity|split; reflexivity].
+  - assert (Keep : In y (cur :: mn L d ds) -> exists x, In x (cur :: d :: ds) /\ st y = st x /\ prof y = prof x).
+    { intros [<-|Hy']; [exists cur; split; [left; reflexivity|split; reflexivity]|].
+      destruct (IH d (proj1 (sorted_st_cons_inv _ _ Hs)) y Hy') as [x [Hx E]].
+      exists x. split; [right; exact Hx|exact E]. }
+    destruct (negb (prof d =? prof cur)); [exact (Keep Hy)|].
+    destruct (2 * (en d - st cur) <? 3 * L (prof d)); [|exact (Keep Hy)].
+    destruct (sorted_st_merge cur d ds Hs) as [E Hs'].
+    destruct (IH (merge cur d) Hs' y Hy) as [x [[<-|Hx] [E1 E2]]].
+    + exists cur. split; [left; reflexivity|]. rewrite E1, E2, E, merge_prof. split; reflexivity.
+    + exists x. split; [right; right; exact Hx|split; assumption].
+Qed.
+
+Lemma ovl_same_head L y x p : st y = st x -> prof y = prof x -> ovl L y p = ovl L x p.
+Proof. intros E1 E2. unfold ovl. rewrite E1, E2. reflexivity. Qed.
+
+Lemma mn_pairwise L : forall rest cur, sorted_st (cur :: rest) ->
+  pairwise_margin L (cur :: rest) = true -> pairwise_margin L (mn L cur rest) = true.
+Proof.
+  induction rest as [|d ds IH]; intros cur Hs Hp; cbn [mn]; [reflexivity|].
+  assert (Keep : pairwise_margin L (cur :: mn L d ds) = true).
+  { apply pm_cons in Hp. destruct Hp as [H1 H2]. destruct (sorted_st_cons_inv _ _ Hs) as [Hs' _].
+    apply pm_cons. split; [|apply IH; assumption].
+    intros y Hy. destruct (mn_heads L ds d Hs' y Hy) as [x [Hx [E1 E2]]].
+    rewrite (ovl_same_head L y x cur E1 E2). apply H1. exact Hx. }
+  destruct (negb (prof d =? prof cur)) eqn:Ep; [exact Keep|].
+  destruct (2 * (en d - st cur) <? 3 * L (prof d)); [|exact Keep].
+  destruct (sorted_st_merge cur d ds Hs) as [E Hs'].
+  apply IH; [exact Hs'|].
+  apply pm_cons in Hp. destruct Hp as [H1 H2]. apply pm_cons in H2. destruct H2 as [H2 H3].
+  apply pm_cons. split; [|exact H3].
+  intros x Hx. specialize (H1 x (or_intror Hx)). specialize (H2 x Hx).
+  assert (Epd : prof d = prof cur) by lia.
+  unfold ovl in *. rewrite merge_prof, merge_en. rewrite Epd in H2. lia.
+Qed.
+
+(* ------------------------------------------------------------------ the whole per-gene call *)
+Lemma refine_gene_pairwise_guarded : forall nb L reg l out,
+  refine_gene nb L reg l = Ok out -> margin_guard nb L l = true -> pairwise_margin L out = true.
+Proof.
+  intros nb L reg l out. unfold refine_gene, margin_guard. destruct nb.
+  - destruct (canonical l) as [|c t] eqn:E; cbn [remove_overlapping_l bind]; [discriminate|].
+    destruct (ro L c t) as [|h' t'] eqn:Er; cbn [merge_neighbours_l bind]; [discriminate|].
+    intros H G. inversion H; subst.
+    apply (pm_sub L _ _ (remove_incomplete_sub L reg _)).
+    apply mn_pairwise.
+    + rewrite <- Er. apply (sorted_st_sub _ _ (ro_sub L t c)). rewrite <- E. apply canonical_sorted_st.
+    + rewrite <- Er. apply ro_pairwise_guarded. exact G.
+  - destruct (merge_domain_list L (canonical l)) as [|c t] eqn:E; cbn [remove_overlapping_l bind]; [discriminate|].
+    intros H G. inversion H; subst.
+    apply (pm_sub L _ _ (remove_incomplete_sub L reg _)).
+    apply ro_pairwise_guarded. exact G.
+Qed.
+
+(* all genes *)
+Lemma refine_all_gene_in nb L reg l out g hs : refine_all nb L reg l = Ok out -> In (g, hs) out ->
+  In g (genes_of l).
+Proof.
+  unfold refine_all. intros H Hin.
+  destruct (mapM _ (genes_of l)) as [per|k] eqn:Em; cbn [bind] in H; [|discriminate].
+  inversion H; subst. apply filter_In in Hin. destruct Hin as [Hin _].
+  destruct (mapM_In _ _ _ _ Em Hin) as [g' [Hg' Hf]].
+  destruct (refine_gene nb L reg (hits_of g' l)) as [r|k] eqn:Er; cbn [bind] in Hf; [|discriminate].
+  inversion Hf; subst. exact Hg'.
+Qed.
+
+Lemma refine_all_pairwise_guarded : forall nb L reg l out g hs,
+  refine_all nb L reg l = Ok out -> margin_guard_all nb L l = true -> In (g, hs) out ->
+  pairwise_margin L hs = true.
+Proof.
+  intros nb L reg l out g hs H G Hin.
+  destruct (refine_all_gene nb L reg l out g hs H Hin) as [Hg _].
+  apply (refine_gene_pairwise_guarded nb L reg _ hs Hg).
+  unfold margin_guard_all in G. rewrite forallb_forall in G. apply G.
+  exact (refine_all_gene_in nb L reg l out g hs H Hin).
+Qed.
+
+Lemma refine_table_pairwise_guarded : forall nb t l out g hs,
+  refine_table nb t l = Ok out -> margin_guard_all nb (plen t) l = true -> In (g, hs) out ->
+  pairwise_margin (plen t) hs = true.
+Proof.
+  intros nb t l out g hs H G Hin. unfold refine_table in H.
+  destruct (forallb _ l); [|discriminate].
+  exact (refine_all_pairwise_guarded nb (plen t) (preg t) l out g hs H G Hin).
+Qed.
+
+(* ------------------------------------------------------------------ one profile length *)
+Definition unifP (L : Z -> Z) (l : list hit) : Prop :=
+  forall x y, In x l -> In y l -> L (prof x) = L (prof y).
+
+Lemma uniform_len_unifP L l : uniform_len L l = true -> unifP L l.
+Proof.
+  destruct l as [|h t]; intros H x y Hx Hy; [destruct Hx|].
+  cbn [uniform_len] in H. rewrite forallb_forall in H.
+  assert (G : forall z, In z (h :: t) -> L (prof z) = L (prof h)).
+  { intros z [<-|Hz]; [reflexivity|]. specialize (H z Hz). lia. }
+  rewrite (G x Hx), (G y Hy). reflexivity.
+Qed.
+
+Lemma mono_from_sorted_uniform L a : forall t, sorted_st t -> unifP L t -> mono_from L a t = true.
+Proof.
+  induction t as [|b t IH]; intros Hs Hu; cbn [mono_from]; [reflexivity|].
+  destruct (sorted_st_cons_inv _ _ Hs) as [Hs' Hle].
+  apply andb_true_iff. split.
+  - apply forallb_forall. intros c Hc. specialize (Hle c Hc).
+    pose proof (Hu b c (or_introl eq_refl) (or_intror Hc)) as E.
+    unfold ovl. rewrite E. lia.
+  - apply IH; [exact Hs'|]. intros x y Hx Hy. apply Hu; right; assumption.
+Qed.
+
+Lemma mono_ovl_sorted_uniform L : forall l, sorted_st l -> unifP L l -> mono_ovl L l = true.
+Proof.
+  induction l as [|a t IH]; intros Hs Hu; cbn [mono_ovl]; [reflexivity|].
+  destruct (sorted_st_cons_inv _ _ Hs) as [Hs' _].
+  assert (Hu' : unifP L t) by (intros x y Hx Hy; apply Hu; right; assumption).
+  apply andb_true_iff. split; [apply mono_from_sorted_uniform; assumption|apply IH; assumption].
+Qed.
+
+Lemma frag_prof L inp h : frag L inp h -> exists x, In x inp /\ prof x = prof h.
+Proof.
+  intros H. induction H as [h Hh|a b Ha IH Hb Hp Hs].
+  - exists h. split; [exact Hh|reflexivity].
+  - destruct IH as [x [Hx E]]. exists x. split; [exact Hx|]. rewrite merge_prof. exact E.
+Qed.
+
+Lemma uniform_len_guard : forall nb L l, uniform_len L l = true -> margin_guard nb L l = true.
+Proof.
+  intros nb L l H. apply uniform_len_unifP in H. unfold margin_guard.
+  assert (Hc : unifP L (canonical l)).
+  { intros x y Hx Hy. apply H; apply canonical_In; assumption. }
+  destruct nb.
+  - apply mono_ovl_sorted_uniform; [apply canonical_sorted_st|exact Hc].
+  - apply mono_ovl_sorted_uniform; [apply merge_domain_list_sorted|].
+    intros x y Hx Hy.
+    destruct (frag_prof L _ x (merge_domain_list_frag L _ x Hx)) as [x' [Hx' Ex]].
+    destruct (frag_prof L _ y (merge_domain_list_frag L _ y Hy)) as [y' [Hy' Ey]].
+    rewrite <- Ex, <- Ey. apply Hc; assumption.
+Qed.
+
+Lemma refine_gene_pairwise_uniform : forall nb L reg l out,
+  refine_gene nb L reg l = Ok out -> uniform_len L l = true -> pairwise_margin L out = true.
+Proof.
+  intros nb L reg l out H U. apply (refine_gene_pairwise_guarded nb L reg l out H).
+  apply uniform_len_guard. exact U.
+Qed.
+
+(* ------------------------------------------------------------------ sharpness and non-vacuity *)
+(* the guard rejects the recorded witness of greedy_replacement_margin, in both modes *)
+Example margin_guard_rejects_F21_neighbour :
+  margin_guard true (fun p => if p =? 1 then 100 else 10)
+    [mkHit 0 0 30 1 100; mkHit 1 15 120 1 80; mkHit 2 16 40 1 120] = false.
+Proof. vm_compute. reflexivity. Qed.
+Example margin_guard_rejects_F21_default :
+  margin_guard false (fun p => if p =? 1 then 100 else 10)
+    [mkHit 0 0 30 1 100; mkHit 1 15 120 1 80; mkHit 2 16 40 1 120] = false.
+Proof. vm_compute. reflexivity. Qed.
+(* ... and the witness without any replacement: a long profile in between hides the overlap *)
+Example margin_guard_rejects_hidden_overlap :
+  let L := fun p => if p =? 1 then 1000 else 10 in
+  let l := [mkHit 0 0 100 1 100; mkHit 1 50 55 1 100; mkHit 2 60 200 1 100] in
+  margin_guard true L l = false /\
+  refine_gene true L (fun _ => true) l = Ok [mkHit 0 0 100 1 100; mkHit 2 60 200 1 100] /\
+  pairwise_margin L [mkHit 0 0 100 1 100; mkHit 2 60 200 1 100] = false.
+Proof. vm_compute. repeat split; reflexivity. Qed.
+(* the guard holds on an input where a replacement happens (three hits in, two out), with two
+   different profile lengths: it is not the uniform case only *)
+Example margin_guard_accepts_replacement :
+  let L := fun p => if p =? 1 then 100 else 10 in
+  let l := [mkHit 0 0 30 1 100; mkHit 1 28 120 1 80; mkHit 2 29 140 1 120] in
+  margin_guard true L l = true /\ margin_guard false L l = true /\ uniform_len L l = false /\
+  refine_gene true L (fun _ => false) l = Ok [mkHit 0 0 30 1 100; mkHit 2 29 140 1 120] /\
+  refine_gene false L (fun _ => false) l = Ok [mkHit 0 0 30 1 100; mkHit 2 29 140 1 120].
+Proof. vm_compute. repeat split; reflexivity. Qed.
+
+
+(* ---------- statements as used in Theorems.v *)
+Lemma C13_filter_groups_proof cds : fwf cds = true ->
+  overlapping_groups cds = Ok (fr_groups cds) /\
+  (forall g, In g (fr_groups cds) -> incl g cds /\ (forall x y, In x g -> In y g -> fconn cds x y) /\ g <> []) /\
+  (forall h o, In h cds -> In o cds -> fov h o = true -> exists g, In g (fr_groups cds) /\ In h g /\ In o g).
+Proof.
+  intros H. destruct (fr_fwf_spec cds H) as [Hp ND]. split; [apply fr_overlapping_groups_pure; exact Hp|].
+  exact (fr_groups_spec cds ND).
+Qed.
+
+Lemma C13_filter_components_proof cds g h : fwf cds = true -> In g (fr_groups cds) ->
+  fclosed (fr_groups cds) g = true -> In h g -> forall x, In x g <-> fconn cds h x.
+Proof.
+  intros H Hg Hc Hh. destruct (fr_fwf_spec cds H) as [Hp ND]. destruct (fr_groups_spec cds ND) as [Inv Cov].
+  exact (fr_closed_component cds _ g h ND Inv Cov Hg Hc Hh).
+Qed.
+
+Lemma C13_filter_keep_iff mine r : fwf mine = true -> In r mine ->
+  (fr_keep mine r = false <-> exists g b, In g (fr_groups mine) /\ In r g /\ best_of g = Some b /\ b <> r).
+Proof.
+  intros H Hr. destruct (fr_fwf_spec mine H) as [Hp ND]. destruct (fr_groups_spec mine ND) as [Inv _].
+  unfold fr_keep. rewrite negb_false_iff. exact (fr_bad_iff mine _ r ND Inv Hr).
+Qed.
+
+Lemma C13_comp_best_proof cds h : fwf cds = true -> In h cds ->
+  (forall x, In x (fcomp cds h) <-> fconn cds h x) /\
+  (comp_best cds h = true <-> forall o, fconn cds h o -> f_sc o <= f_sc h).
+Proof.
+  intros H Hh. destruct (fr_fwf_spec cds H) as [_ ND]. split; [exact (fcomp_spec cds h ND Hh)|exact (comp_best_spec cds h ND Hh)].
+Qed.
+
+Lemma C13_rank_order_proof cut : 
+  (forall a, rank_lt cut a a = false) /\
+  (forall a b c, hh_pos cut a -> hh_pos cut b -> hh_pos cut c ->
+     rank_lt cut a b = true -> rank_lt cut b c = true -> rank_lt cut a c = true) /\
+  (forall a b, hh_pos cut a -> hh_pos cut b -> rank_lt cut a b = false -> rank_lt cut b a = false -> a = b).
+Proof.
+  split; [exact (rank_lt_irrefl cut)|]. split; [exact (rank_lt_trans cut)|exact (rank_lt_total cut)].
+Qed.
+
+Lemma hmmer_dropped_ok limit cutoffs hits out :
+  hmmer_remove_overlapping limit cutoffs hits = Ok out ->
+  (forall h, In h hits -> hh_pos (cut_of cutoffs) h) ->
+  hh_dropped_ok limit (cut_of cutoffs) hits out = true.
+Proof.
+  intros H Hp. unfold hh_dropped_ok. apply forallb_forall. intros x Hx.
+  destruct (mem hh_eqb x out) eqn:Em; [reflexivity|]. cbn.
+  assert (Hn : ~ In x out).
+  { intros Hin. clear -Hin Em. induction out as [|a t IH]; cbn in Em; [contradiction|].
+    apply orb_false_iff in Em. destruct Em as [E1 E2]. destruct Hin as [->|Hin]; [|apply IH; auto].
+    assert (hh_eqb x x = true) by (apply hh_eqb_eq; reflexivity). congruence. }
+  destruct (hmmer_dropped_has_better_kept limit cutoffs hits out H Hp x Hx Hn) as [k [Hk [Hc Hr]]].
+  apply existsb_exists. exists k. split; [exact Hk|]. rewrite Hc, Hr. reflexivity.
+Qed.
